@@ -130,24 +130,28 @@ Proof.
     cbn. apply Z.eqb_refl.
 Qed.
 
-Lemma vol_is_full_spec sn smax :
-  (in_range sn smax /\ exists full, vol_is_full sn smax = Some full /\ length full = length sn /\
-     forall v b, In (v, b) (combine (vol_numbers sn) full) -> (b = true <-> fullv sn smax v))
-  \/ (~ in_range sn smax /\ vol_is_full sn smax = None).
+(* v is a complete volume for the volume assignment vn *)
+Definition fullvw (sn vn : list Z) (smax v : Z) : Prop :=
+  forall s, 1 <= s <= smax -> In (s, v) (combine sn vn).
+
+Lemma viw_spec sn vn smax :
+  (in_range sn smax /\ exists full, vol_is_full_with sn vn smax = Some full /\ length full = length vn /\
+     forall v b, In (v, b) (combine vn full) -> (b = true <-> fullvw sn vn smax v))
+  \/ (~ in_range sn smax /\ vol_is_full_with sn vn smax = None).
 Proof.
-  unfold vol_is_full.
+  unfold vol_is_full_with.
   destruct (forallb (fun s => memz s (zrange 1 smax)) sn) eqn:R; cbn [negb].
   - left. rewrite forallb_forall in R.
     assert (IR : in_range sn smax).
     { intros s Hs. apply zrange_In. apply memz_In. now apply R. }
-    split; [exact IR|]. eexists. split; [reflexivity|]. split; [now rewrite map_length, vn_length|].
+    split; [exact IR|]. eexists. split; [reflexivity|]. split; [now rewrite map_length|].
     intros v b H.
-    set (f := fun v => set_eqb (vol_slices sn (vol_numbers sn) v) (zrange 1 smax)) in *.
-    assert (Hv : In v (vol_numbers sn)).
+    set (f := fun v => set_eqb (vol_slices sn vn v) (zrange 1 smax)) in *.
+    assert (Hv : In v vn).
     { apply in_combine_l in H. exact H. }
     assert (Hb : b = f v).
     { apply combine_map_in in H. subst b. apply lookup_tab. now apply nodup_In. }
-    subst b. unfold f, set_eqb. rewrite andb_true_iff, !forallb_forall. split.
+    subst b. unfold f, set_eqb, fullvw. rewrite andb_true_iff, !forallb_forall. split.
     + intros [_ H2] s Hs. apply vol_slices_In. apply memz_In. apply H2. now apply zrange_In.
     + intros F. split.
       * intros s Hs. apply memz_In. apply zrange_In. apply IR.
@@ -156,6 +160,16 @@ Proof.
   - right. split; [|reflexivity]. intros IR.
     assert (forallb (fun s => memz s (zrange 1 smax)) sn = true); [|congruence].
     apply forallb_forall. intros s Hs. apply memz_In, zrange_In. now apply IR.
+Qed.
+
+Lemma vol_is_full_spec sn smax :
+  (in_range sn smax /\ exists full, vol_is_full sn smax = Some full /\ length full = length sn /\
+     forall v b, In (v, b) (combine (vol_numbers sn) full) -> (b = true <-> fullv sn smax v))
+  \/ (~ in_range sn smax /\ vol_is_full sn smax = None).
+Proof.
+  unfold vol_is_full. destruct (viw_spec sn (vol_numbers sn) smax) as [[IR [full [E [L S]]]]|[NR E]].
+  - left. split; [exact IR|]. exists full. rewrite vn_length in L. auto.
+  - right. auto.
 Qed.
 
 Lemma fullv_perm sn sn' smax v : Permutation sn sn' -> fullv sn smax v <-> fullv sn' smax v.
@@ -294,7 +308,7 @@ Definition nvols_seq (sn : list Z) (smax : Z) : option nat :=
   | Some full => Some (n_distinct (map fst (filter snd (combine (vol_numbers sn) full))))
   end.
 
-Lemma n_vols_seq smax recs : n_vols smax recs = nvols_seq (map sl recs) smax.
+Lemma n_vols_seq smax recs : n_vols false smax recs = nvols_seq (map sl recs) smax.
 Proof. reflexivity. Qed.
 
 Lemma nvols_seq_perm sn sn' smax : Permutation sn sn' -> nvols_seq sn smax = nvols_seq sn' smax.
@@ -344,10 +358,10 @@ Proof. apply Permutation_map. Qed.
 Lemma n_slices_perm recs recs' : Permutation recs recs' -> n_slices recs = n_slices recs'.
 Proof. intros P. apply n_distinct_perm. now apply Permutation_map. Qed.
 
-Lemma n_vols_perm smax recs recs' : Permutation recs recs' -> n_vols smax recs = n_vols smax recs'.
+Lemma n_vols_perm smax recs recs' : Permutation recs recs' -> n_vols false smax recs = n_vols false smax recs'.
 Proof. intros P. rewrite !n_vols_seq. apply nvols_seq_perm. now apply Permutation_map. Qed.
 
-Lemma n_used_perm smax recs recs' : Permutation recs recs' -> n_used smax recs = n_used smax recs'.
+Lemma n_used_perm smax recs recs' : Permutation recs recs' -> n_used false smax recs = n_used false smax recs'.
 Proof. intros P. unfold n_used. now rewrite (n_vols_perm smax recs recs' P), (n_slices_perm recs recs' P). Qed.
 
 Lemma header_init_perm permit expd smax recs recs' : Permutation recs recs' ->
@@ -391,10 +405,21 @@ Proof. apply select_lexsort. Qed.
 (* second stage as a function of the stage-1 sorted records only *)
 Definition k2rows (vn : list Z) (full : list bool) : list (list Z) :=
   map (fun p => key2 (fst p) (snd p)) (combine vn full).
-Definition stage2 (smax : Z) (L : list rec) : option (list rec) :=
-  match vol_is_full (map sl L) smax with
+(* the volume assignment of the strict order, as a function of the key-sorted records *)
+Definition labrow (r : rec) : list Z := tl (keys r).
+Definition strict_vn (L : list rec) : list Z :=
+  let gn := group_nos (map labrow L) in
+  let rn := vol_numbers2 (combine gn (map sl L)) in
+  map (fun p => fst p * (fold_right Z.max 0 rn + 1) + snd p) (combine gn rn).
+Definition strict_vols (smax : Z) (L : list rec) : option (list Z * list bool) :=
+  match vol_is_full_with (map sl L) (strict_vn L) smax with
   | None => None
-  | Some full => Some (select dummy (lexsort (k2rows (vol_numbers (map sl L)) full)) L)
+  | Some full => Some (strict_vn L, full)
+  end.
+Definition stage2 (smax : Z) (L : list rec) : option (list rec) :=
+  match strict_vols smax L with
+  | None => None
+  | Some (vn, full) => Some (select dummy (lexsort (k2rows vn full)) L)
   end.
 
 Lemma full_length sn smax full : vol_is_full sn smax = Some full -> length full = length sn.
@@ -402,40 +427,87 @@ Proof.
   intros E. destruct (vol_is_full_spec sn smax) as [[_ [f [E' [L _]]]]|[_ E']]; congruence.
 Qed.
 
-Lemma k2rows_length sn smax full : vol_is_full sn smax = Some full ->
-  length (k2rows (vol_numbers sn) full) = length sn.
+Lemma viw_length sn vn smax full : vol_is_full_with sn vn smax = Some full -> length full = length vn.
 Proof.
-  intros E. unfold k2rows. rewrite map_length, combine_length, vn_length, (full_length _ _ _ E).
-  apply Nat.min_id.
+  intros E. destruct (viw_spec sn vn smax) as [[_ [f [E' [L _]]]]|[_ E']]; congruence.
 Qed.
+
+Lemma group_nos_aux_length prev g l : length (group_nos_aux prev g l) = length l.
+Proof. revert prev g; induction l as [|x l IH]; intros; cbn; [reflexivity|]. now rewrite IH. Qed.
+Lemma group_nos_length l : length (group_nos l) = length l.
+Proof. destruct l; cbn; [reflexivity|]. now rewrite group_nos_aux_length. Qed.
+Lemma vn2_aux_length seen l : length (vol_numbers2_aux seen l) = length l.
+Proof. revert seen; induction l as [|x l IH]; intros; cbn; [reflexivity|]. now rewrite IH. Qed.
+
+Lemma strict_vn_length L : length (strict_vn L) = length L.
+Proof.
+  unfold strict_vn, vol_numbers2. rewrite map_length, combine_length, vn2_aux_length, combine_length,
+    group_nos_length, !map_length. lia.
+Qed.
+
+Lemma strict_vols_lengths smax L vn full : strict_vols smax L = Some (vn, full) ->
+  length vn = length L /\ length full = length L.
+Proof.
+  unfold strict_vols. destruct (vol_is_full_with (map sl L) (strict_vn L) smax) as [f|] eqn:E; [|discriminate].
+  intros H. inversion H; subst. rewrite (viw_length _ _ _ _ E), strict_vn_length. auto.
+Qed.
+
+Lemma k2rows_length_gen vn full n : length vn = n -> length full = n -> length (k2rows vn full) = n.
+Proof. intros A B. unfold k2rows. rewrite map_length, combine_length. lia. Qed.
 
 Lemma sn_stage1 recs : select 0 (lexsort (map keys recs)) (map sl recs) = map sl (stage1 recs).
 Proof. change 0 with (sl dummy). now rewrite select_map, select_stage1. Qed.
 
+Lemma lab_stage1 recs :
+  select [] (lexsort (map keys recs)) (map (fun r => tl (keys r)) recs) = map labrow (stage1 recs).
+Proof. change (@nil Z) with (labrow dummy). now rewrite (select_map labrow), select_stage1. Qed.
+
+Lemma ssv_stage1 smax recs :
+  strict_sort_volumes smax recs =
+  match strict_vols smax (stage1 recs) with
+  | None => None
+  | Some (vn, full) => Some (lexsort (map keys recs), vn, full)
+  end.
+Proof.
+  unfold strict_sort_volumes, strict_vols, strict_vn. cbv zeta. rewrite !sn_stage1, !lab_stage1.
+  destruct (vol_is_full_with _ _ smax); reflexivity.
+Qed.
+
 Lemma strict_records smax recs :
   option_map (fun order => select dummy order recs) (strict_sort_order smax recs) = stage2 smax (stage1 recs).
 Proof.
-  unfold strict_sort_order, stage2. cbv zeta. rewrite !sn_stage1.
-  destruct (vol_is_full (map sl (stage1 recs)) smax) as [full|] eqn:E; [|reflexivity].
-  cbn [option_map]. f_equal. fold (k2rows (vol_numbers (map sl (stage1 recs))) full).
+  unfold strict_sort_order, stage2. rewrite ssv_stage1.
+  destruct (strict_vols smax (stage1 recs)) as [[vn full]|] eqn:E; [|reflexivity].
+  destruct (strict_vols_lengths _ _ _ _ E) as [Lv Lf].
+  cbn [option_map]. f_equal. fold (k2rows vn full).
   rewrite select_select, select_stage1; [reflexivity|].
   intros j Hj. apply lexsort_in_range in Hj.
-  rewrite (k2rows_length _ smax full E), map_length, (Permutation_length (stage1_perm recs)) in Hj.
+  rewrite (k2rows_length_gen vn full _ Lv Lf), (Permutation_length (stage1_perm recs)) in Hj.
   now rewrite lexsort_length, map_length.
 Qed.
 
 Lemma strict_order_perm smax recs order : strict_sort_order smax recs = Some order ->
   Permutation order (seq 0 (length recs)).
 Proof.
-  unfold strict_sort_order. cbv zeta. rewrite !sn_stage1.
-  destruct (vol_is_full (map sl (stage1 recs)) smax) as [full|] eqn:E; [|discriminate].
-  intros H. inversion H; subst order. clear H.
-  fold (k2rows (vol_numbers (map sl (stage1 recs))) full).
+  unfold strict_sort_order. rewrite ssv_stage1.
+  destruct (strict_vols smax (stage1 recs)) as [[vn full]|] eqn:E; [|discriminate].
+  destruct (strict_vols_lengths _ _ _ _ E) as [Lv Lf].
+  intros H. inversion H; subst order. clear H. fold (k2rows vn full).
   transitivity (lexsort (map keys recs)).
   - apply select_perm. rewrite lexsort_length.
-    rewrite (lexsort_perm _), (k2rows_length _ smax full E), !map_length.
+    rewrite (lexsort_perm _), (k2rows_length_gen vn full _ Lv Lf), !map_length.
     now rewrite (Permutation_length (stage1_perm recs)).
   - rewrite lexsort_perm. now rewrite map_length.
+Qed.
+
+Lemma n_vols_strict smax recs :
+  n_vols true smax recs =
+  match strict_vols smax (stage1 recs) with
+  | None => None
+  | Some (vn, full) => Some (n_distinct (map fst (filter snd (combine vn full))))
+  end.
+Proof.
+  unfold n_vols. rewrite ssv_stage1. destruct (strict_vols smax (stage1 recs)) as [[vn full]|]; reflexivity.
 Qed.
 
 Lemma lax_order_perm smax recs order : lax_sort_order smax recs = Some order ->
@@ -453,7 +525,7 @@ Proof.
   unfold sorted_slice_indices.
   destruct (if strict then strict_sort_order smax recs else lax_sort_order smax recs) as [order|] eqn:E;
     [|discriminate].
-  destruct (n_used smax recs) as [n|]; [|discriminate]. intros H. inversion H; subst idx. clear H.
+  destruct (n_used strict smax recs) as [n|]; [|discriminate]. intros H. inversion H; subst idx. clear H.
   assert (P : Permutation order (seq 0 (length recs))).
   { destruct strict; [now apply strict_order_perm in E|now apply lax_order_perm in E]. }
   split.
@@ -528,10 +600,64 @@ Proof.
       apply in_map_iff. exists (s, (v, true)). split; [reflexivity|]. apply filter_In. now split.
 Qed.
 
+Lemma combine_swap_in {A B} (a : list A) (b : list B) x y : In (x, y) (combine a b) -> In (y, x) (combine b a).
+Proof.
+  revert b; induction a as [|u a IH]; intros [|v b] H; cbn in *; try tauto.
+  destruct H as [E|H]; [inversion E; now left|right; now apply IH].
+Qed.
+
+Lemma full_vols_In_w sn vn smax full v :
+  vol_is_full_with sn vn smax = Some full ->
+  In v (map fst (filter snd (combine vn full))) <-> (In v vn /\ fullvw sn vn smax v).
+Proof.
+  intros E. destruct (viw_spec sn vn smax) as [[IR [f [E' [L S]]]]|[_ E']]; [|congruence].
+  rewrite E in E'. inversion E'; subst f. clear E'.
+  rewrite in_map_iff. split.
+  - intros [[v' b] [Ev H]]. cbn in Ev. subst v'. apply filter_In in H. destruct H as [H Hb].
+    cbn in Hb. subst b. split; [now apply in_combine_l in H|]. now apply (S v true).
+  - intros [Hv F]. destruct (in_combine_split full vn v) as [b Hb]; [now symmetry|assumption|].
+    apply combine_swap_in in Hb.
+    exists (v, b). split; [reflexivity|]. apply filter_In. split; [assumption|]. cbn.
+    now apply (S v b).
+Qed.
+
+(* the records of complete volumes: (number of distinct slice numbers) x (number of complete volumes),
+   for any volume assignment in which a (slice, volume) pair occurs once *)
+Lemma full_count_w sn vn smax full : vol_is_full_with sn vn smax = Some full ->
+  length vn = length sn -> NoDup (combine sn vn) ->
+  length (filter (fun b => b) full) =
+  (n_distinct sn * n_distinct (map fst (filter snd (combine vn full))))%nat.
+Proof.
+  intros E Lv ND. destruct (viw_spec sn vn smax) as [[IR [f [E' [L S]]]]|[_ E']]; [|congruence].
+  rewrite E in E'. inversion E'; subst f. clear E'.
+  pose proof (fun v => full_vols_In_w sn vn smax full v E) as FVI.
+  set (T := combine sn (combine vn full)).
+  set (q := fun t : Z * (Z * bool) => snd (snd t)).
+  set (g := fun t : Z * (Z * bool) => (fst t, fst (snd t))).
+  rewrite <- (filter3_length sn vn full) by lia. fold T. fold q.
+  rewrite <- (map_length g (filter q T)).
+  unfold n_distinct. rewrite <- prod_length. apply Permutation_length.
+  assert (gT : map g T = combine sn vn) by (apply map_proj12; lia).
+  apply NoDup_Permutation.
+  - apply NoDup_map_filter. now rewrite gT.
+  - apply NoDup_list_prod; apply NoDup_nodup.
+  - intros [s v]. rewrite in_prod_iff, !nodup_In, FVI. split.
+    + intros H. apply in_map_iff in H. destruct H as [[s' [v' b]] [Eg Ht]]. unfold g in Eg. cbn in Eg.
+      inversion Eg; subst s' v'. apply filter_In in Ht. destruct Ht as [Ht Hb]. unfold q in Hb. cbn in Hb. subst b.
+      assert (Hsv : In (s, v) (combine sn vn)).
+      { rewrite <- gT. apply in_map_iff. exists (s, (v, true)). split; [reflexivity|exact Ht]. }
+      split; [now apply in_combine_l in Hsv|]. split; [now apply in_combine_r in Hsv|].
+      apply (S v true); [|reflexivity]. unfold T in Ht. now apply in_combine_r in Ht.
+    + intros [Hs [Hv F]]. assert (Hsv : In (s, v) (combine sn vn)) by (apply F; now apply IR).
+      destruct (in_combine3 sn vn full s v ltac:(lia) Hsv) as [b Hb]. fold T in Hb.
+      assert (b = true) as ->.
+      { apply (S v b); [|assumption]. unfold T in Hb. now apply in_combine_r in Hb. }
+      apply in_map_iff. exists (s, (v, true)). split; [reflexivity|]. apply filter_In. now split.
+Qed.
+
 (* ------------------------------------------------------------ sorted with the complete volumes first *)
 Notation ann := (rec * (Z * bool))%type.
-Definition annot (L : list rec) (full : list bool) : list ann :=
-  combine L (combine (vol_numbers (map sl L)) full).
+Definition annot (L : list rec) (vn : list Z) (full : list bool) : list ann := combine L (combine vn full).
 Definition aflag (a : ann) : bool := snd (snd a).
 Definition k2 (a : ann) : list Z := key2 (fst (snd a)) (snd (snd a)).
 Definition k3 (a : ann) : list Z := [sl (fst a); fst (snd a); b2z (negb (snd (snd a)))].
@@ -565,26 +691,16 @@ Proof.
   intros -> ->. reflexivity.
 Qed.
 
-Lemma annot_fst L smax full : vol_is_full (map sl L) smax = Some full -> map fst (annot L full) = L.
-Proof.
-  intros E. unfold annot. apply map_fst_combine.
-  rewrite combine_length, vn_length, (full_length _ _ _ E), map_length. now rewrite Nat.min_id.
-Qed.
+Lemma annot_fst L vn full : length vn = length L -> length full = length L -> map fst (annot L vn full) = L.
+Proof. intros A B. unfold annot. apply map_fst_combine. rewrite combine_length. lia. Qed.
 
-Lemma annot_len L smax full : vol_is_full (map sl L) smax = Some full ->
-  length L = length (combine (vol_numbers (map sl L)) full).
+Lemma annot_k2 L vn full : length vn = length L -> length full = length L ->
+  map k2 (annot L vn full) = k2rows vn full.
 Proof.
-  intros E. rewrite combine_length, vn_length, (full_length _ _ _ E), map_length. now rewrite Nat.min_id.
-Qed.
-
-Lemma annot_k2 L smax full : vol_is_full (map sl L) smax = Some full ->
-  map k2 (annot L full) = k2rows (vol_numbers (map sl L)) full.
-Proof.
-  intros E. unfold annot, k2rows.
-  transitivity (map (fun p : Z * bool => key2 (fst p) (snd p))
-                    (map snd (combine L (combine (vol_numbers (map sl L)) full)))).
+  intros A B. unfold annot, k2rows.
+  transitivity (map (fun p : Z * bool => key2 (fst p) (snd p)) (map snd (combine L (combine vn full)))).
   - rewrite map_map. reflexivity.
-  - rewrite map_snd_combine by now apply (annot_len L smax full). reflexivity.
+  - rewrite map_snd_combine by (rewrite combine_length; lia). reflexivity.
 Qed.
 
 Lemma combine_map_l {A B C} (f : A -> B) (a : list A) (c : list C) :
@@ -593,29 +709,29 @@ Proof.
   revert c; induction a as [|x a IH]; intros [|z c]; cbn; try reflexivity. now rewrite IH.
 Qed.
 
-Lemma annot_k3 L full :
-  map k3 (annot L full) =
+Lemma annot_k3 L vn full :
+  map k3 (annot L vn full) =
   map (fun p : Z * (Z * bool) => [fst p; fst (snd p); b2z (negb (snd (snd p)))])
-      (combine (map sl L) (combine (vol_numbers (map sl L)) full)).
+      (combine (map sl L) (combine vn full)).
 Proof. unfold annot. rewrite combine_map_l, map_map. reflexivity. Qed.
 
-Lemma annot_complete L full :
-  length (vol_numbers (map sl L)) = length full ->
-  map fst (filter aflag (annot L full)) = map fst (filter snd (combine L full)).
+Lemma annot_complete L vn full :
+  length vn = length full ->
+  map fst (filter aflag (annot L vn full)) = map fst (filter snd (combine L full)).
 Proof.
-  unfold annot. generalize (vol_numbers (map sl L)) as vn. intros vn. revert vn full.
+  unfold annot. revert vn full.
   induction L as [|r L IH]; intros [|v vn] [|b full] H; cbn in *; try lia; try reflexivity.
   unfold aflag at 1. cbn. destruct b; cbn; rewrite IH by lia; reflexivity.
 Qed.
 
 (* the records selected by a fancy index computed on the annotated list *)
-Lemma select_annot L smax full (kf : ann -> list Z) :
-  vol_is_full (map sl L) smax = Some full ->
-  select dummy (lexsort (map kf (annot L full))) L =
-  map fst (isort (fun a b => key_le (kf a) (kf b)) (annot L full)).
+Lemma select_annot L vn full (kf : ann -> list Z) :
+  length vn = length L -> length full = length L ->
+  select dummy (lexsort (map kf (annot L vn full))) L =
+  map fst (isort (fun a b => key_le (kf a) (kf b)) (annot L vn full)).
 Proof.
-  intros E. rewrite <- (select_lexsort dann kf).
-  rewrite <- (annot_fst L smax full E) at 2.
+  intros A B. rewrite <- (select_lexsort dann kf).
+  rewrite <- (annot_fst L vn full A B) at 2.
   change dummy with (fst dann). apply select_map.
 Qed.
 
@@ -633,25 +749,124 @@ Proof.
   split; [exact IR|]. split; [exact L|]. split; [exact S|]. intros s v. apply vn_in.
 Qed.
 
+(* ------------------------------------------------------------ (slice, volume) pairs occur once *)
+Lemma pair_eqb_spec p q : pair_eqb p q = true <-> p = q.
+Proof.
+  destruct p as [a b], q as [c d]. unfold pair_eqb. cbn. rewrite andb_true_iff, !Z.eqb_eq.
+  split; [intros [-> ->]; reflexivity|intros E; inversion E; auto].
+Qed.
+
+Definition cnt2 (seen : list (Z * Z)) (p : Z * Z) : nat := length (filter (pair_eqb p) seen).
+
+Lemma vn2_lower seen l p c : In (p, c) (combine l (vol_numbers2_aux seen l)) -> Z.of_nat (cnt2 seen p) <= c.
+Proof.
+  revert seen; induction l as [|x l IH]; intros seen H; [destruct H|].
+  cbn [vol_numbers2_aux combine In] in H. destruct H as [E|H].
+  - inversion E; subst. unfold cnt2. lia.
+  - apply IH in H. unfold cnt2 in *. cbn [filter] in H. destruct (pair_eqb p x); cbn [length] in H; lia.
+Qed.
+
+Lemma vn2_nodup seen l : NoDup (combine l (vol_numbers2_aux seen l)).
+Proof.
+  revert seen; induction l as [|x l IH]; intros seen; cbn [vol_numbers2_aux combine]; constructor; [|apply IH].
+  intros H. apply vn2_lower in H. unfold cnt2 in H. cbn [filter] in H.
+  rewrite (proj2 (pair_eqb_spec x x) eq_refl) in H. cbn [length] in H. lia.
+Qed.
+
+Lemma vn2_nonneg seen l r : In r (vol_numbers2_aux seen l) -> 0 <= r.
+Proof.
+  revert seen; induction l as [|x l IH]; intros seen H; [destruct H|]. cbn in H.
+  destruct H as [<-|H]; [lia|now apply IH in H].
+Qed.
+
+Lemma fold_max_ge (l : list Z) r : In r l -> r <= fold_right Z.max 0 l.
+Proof. induction l as [|x l IH]; intros H; [destruct H|]. cbn. destruct H as [->|H]; [lia|]. apply IH in H. lia. Qed.
+
+Lemma combine3_map {A B C D} (F : A -> C -> D) (sn : list B) (gn : list A) (rn : list C) :
+  combine sn (map (fun p => F (fst p) (snd p)) (combine gn rn)) =
+  map (fun t : (A * B) * C => (snd (fst t), F (fst (fst t)) (snd t))) (combine (combine gn sn) rn).
+Proof.
+  revert gn rn; induction sn as [|s sn IH]; intros [|g gn] [|r rn]; cbn; try reflexivity.
+  now rewrite IH.
+Qed.
+
+Lemma NoDup_map_inj_in {A B} (h : A -> B) l :
+  (forall x y, In x l -> In y l -> h x = h y -> x = y) -> NoDup l -> NoDup (map h l).
+Proof.
+  intros Hi N. induction N as [|x l Hx N IH]; cbn; constructor.
+  - intros Hin. apply in_map_iff in Hin. destruct Hin as [y [E Hy]].
+    assert (y = x) by (apply Hi; [now right|now left|assumption]). subst. contradiction.
+  - apply IH. intros a b Ha Hb. apply Hi; now right.
+Qed.
+
+Lemma strict_vn_nodup L : NoDup (combine (map sl L) (strict_vn L)).
+Proof.
+  unfold strict_vn. set (gn := group_nos (map labrow L)). set (sn := map sl L).
+  set (rn := vol_numbers2 (combine gn sn)). set (M := fold_right Z.max 0 rn).
+  rewrite (combine3_map (fun g r => g * (M + 1) + r) sn gn rn).
+  apply NoDup_map_inj_in; [|apply vn2_nodup].
+  intros [[g s] r] [[g' s'] r'] H1 H2 E. cbn [fst snd] in E. inversion E as [[Es Ev]]. subst s'.
+  assert (B : forall g0 s0 r0, In (g0, s0, r0) (combine (combine gn sn) rn) -> 0 <= r0 <= M).
+  { intros g0 s0 r0 H. apply in_combine_r in H. split; [now apply vn2_nonneg in H|now apply fold_max_ge]. }
+  pose proof (B _ _ _ H1) as B1. pose proof (B _ _ _ H2) as B2.
+  assert (g = g') by nia. subst g'. assert (r = r') by lia. now subst.
+Qed.
+
 (* ------------------------------------------------------------ the sorted records of both orders *)
 (* the records named by the (untrimmed) sort order, as a sort of the annotated base list *)
 Definition base_of (strict : bool) (recs : list rec) : list rec := if strict then stage1 recs else recs.
 Definition kf_of (strict : bool) : ann -> list Z := if strict then k2 else k3.
+(* volume numbers and is_full flags of the base list *)
+Definition vols_of (strict : bool) (smax : Z) (L : list rec) : option (list Z * list bool) :=
+  if strict then strict_vols smax L
+  else match vol_is_full (map sl L) smax with
+       | None => None
+       | Some full => Some (vol_numbers (map sl L), full)
+       end.
+
+Lemma vols_of_viw (strict : bool) smax L vn full : vols_of strict smax L = Some (vn, full) ->
+  vol_is_full_with (map sl L) vn smax = Some full /\ length vn = length L /\ length full = length L /\
+  NoDup (combine (map sl L) vn).
+Proof.
+  destruct strict; cbn [vols_of].
+  - intros H. destruct (strict_vols_lengths _ _ _ _ H) as [A B]. unfold strict_vols in H.
+    destruct (vol_is_full_with (map sl L) (strict_vn L) smax) as [f|] eqn:E; [|discriminate].
+    inversion H; subst. repeat split; try assumption. apply strict_vn_nodup.
+  - destruct (vol_is_full (map sl L) smax) as [f|] eqn:E; [|discriminate]. intros H. inversion H; subst.
+    repeat split.
+    + exact E.
+    + now rewrite vn_length, map_length.
+    + now rewrite (full_length _ _ _ E), map_length.
+    + apply vn_nodup.
+Qed.
+
+Lemma n_vols_vols_of (strict : bool) smax recs :
+  n_vols strict smax recs =
+  match vols_of strict smax (base_of strict recs) with
+  | None => None
+  | Some (vn, full) => Some (n_distinct (map fst (filter snd (combine vn full))))
+  end.
+Proof.
+  destruct strict; cbn [vols_of base_of]; [apply n_vols_strict|].
+  unfold n_vols. destruct (vol_is_full (map sl recs) smax); reflexivity.
+Qed.
 
 Lemma order_records (strict : bool) smax recs order :
   (if strict then strict_sort_order smax recs else lax_sort_order smax recs) = Some order ->
-  exists full, vol_is_full (map sl (base_of strict recs)) smax = Some full /\
+  exists vn full, vols_of strict smax (base_of strict recs) = Some (vn, full) /\
     select dummy order recs =
-    map fst (isort (fun a b => key_le (kf_of strict a) (kf_of strict b)) (annot (base_of strict recs) full)).
+    map fst (isort (fun a b => key_le (kf_of strict a) (kf_of strict b)) (annot (base_of strict recs) vn full)).
 Proof.
-  destruct strict; cbn [base_of kf_of].
+  destruct strict; cbn [base_of kf_of vols_of].
   - intros H. pose proof (strict_records smax recs) as R. rewrite H in R. cbn [option_map] in R.
-    unfold stage2 in R. destruct (vol_is_full (map sl (stage1 recs)) smax) as [full|] eqn:E; [|discriminate].
-    exists full. split; [reflexivity|]. inversion R as [R']. rewrite R'.
-    rewrite <- (annot_k2 _ smax full E). now apply (select_annot _ smax).
+    unfold stage2 in R. destruct (strict_vols smax (stage1 recs)) as [[vn full]|] eqn:E; [|discriminate].
+    destruct (strict_vols_lengths _ _ _ _ E) as [A B].
+    exists vn, full. split; [reflexivity|]. inversion R as [R']. rewrite R'.
+    rewrite <- (annot_k2 _ vn full A B). now apply select_annot.
   - unfold lax_sort_order. destruct (vol_is_full (map sl recs) smax) as [full|] eqn:E; [|discriminate].
-    intros H. inversion H; subst order. exists full. split; [reflexivity|].
-    rewrite <- annot_k3. now apply (select_annot _ smax).
+    intros H. inversion H; subst order. exists (vol_numbers (map sl recs)), full. split; [reflexivity|].
+    rewrite <- annot_k3. apply select_annot; [now rewrite vn_length, map_length|].
+    now rewrite (full_length _ _ _ E), map_length.
 Qed.
 
 Lemma kf_flag (strict : bool) x y : aflag x = false -> aflag y = true -> key_le (kf_of strict x) (kf_of strict y) = false.
@@ -660,8 +875,8 @@ Proof. destruct strict; [apply k2_flag|apply k3_flag]. Qed.
 (* C20_truncated_complete_only *)
 Lemma truncated_complete_only (strict : bool) smax recs idx nv :
   sorted_slice_indices strict smax recs = Some idx ->
-  n_vols smax recs = Some nv -> (1 <= nv)%nat ->
-  exists full, vol_is_full (map sl (base_of strict recs)) smax = Some full /\
+  n_vols strict smax recs = Some nv -> (1 <= nv)%nat ->
+  exists vn full, vols_of strict smax (base_of strict recs) = Some (vn, full) /\
     Permutation (select dummy idx recs) (map fst (filter snd (combine (base_of strict recs) full))) /\
     NoDup idx /\ (forall i, In i idx -> (i < length recs)%nat).
 Proof.
@@ -670,28 +885,27 @@ Proof.
   destruct (if strict then strict_sort_order smax recs else lax_sort_order smax recs) as [order|] eqn:EO;
     [|discriminate].
   unfold n_used in H. rewrite NV in H. inversion H; subst idx. clear H.
-  destruct (order_records strict smax recs order EO) as [full [E R]].
-  exists full. split; [exact E|]. split; [|split; assumption].
+  destruct (order_records strict smax recs order EO) as [vn [full [E R]]].
+  exists vn, full. split; [exact E|]. split; [|split; assumption].
   set (L := base_of strict recs) in *.
   assert (PL : Permutation L recs).
   { unfold L. destruct strict; cbn [base_of]; [apply stage1_perm|reflexivity]. }
+  destruct (vols_of_viw strict smax L vn full E) as [EW [Lv [Lf NDp]]].
   rewrite select_firstn, R, firstn_map.
-  set (AL := annot L full) in *.
+  set (AL := annot L vn full) in *.
   pose proof (flag_first (kf_of strict) AL (kf_flag strict)) as [F1 F2]. cbv zeta in F1, F2.
   (* the trim length is the number of records of complete volumes *)
   assert (Hn : (if (1 <? nv)%nat then n_slices recs * nv else n_slices recs)%nat = length (filter aflag AL)).
   { assert (Hc : length (filter aflag AL) = length (filter (fun b : bool => b) full)).
-    { apply (filter3_length L (vol_numbers (map sl L)) full);
-        rewrite ?vn_length, (full_length _ _ _ E), map_length; reflexivity. }
+    { apply (filter3_length L vn full); lia. }
     rewrite Hc.
-    rewrite (full_count _ smax full E).
+    rewrite (full_count_w _ vn smax full EW) by (rewrite ?map_length; assumption).
     assert (Ps : Permutation (map sl L) (map sl recs)) by now apply Permutation_map.
-    pose proof (nvols_seq_perm _ _ smax Ps) as Q. unfold nvols_seq at 1 in Q. rewrite E in Q.
-    rewrite <- n_vols_seq, NV in Q. inversion Q as [Q']. rewrite Q'.
+    rewrite n_vols_vols_of in NV. fold L in NV. rewrite E in NV. inversion NV as [Q']. rewrite Q'.
     unfold n_slices. rewrite (n_distinct_perm _ _ Ps).
     destruct (Nat.ltb_spec 1 nv); [reflexivity|]. assert (nv = 1%nat) as -> by lia. lia. }
   rewrite Hn, F1. rewrite F2. unfold AL.
-  rewrite annot_complete; [reflexivity|]. now rewrite vn_length, (full_length _ _ _ E), map_length.
+  rewrite annot_complete; [reflexivity|lia].
 Qed.
 
 (* ------------------------------------------------------------ observables in terms of the sorted records *)
@@ -714,14 +928,15 @@ Section Obs.
     load strict permit fp expd smax nlab recs = Ok (idx, o) ->
     header_init permit expd smax recs = Ok tt /\
     sorted_slice_indices strict smax recs = Some idx /\
-    exists nv, n_vols smax recs = Some nv /\
+    exists nv, n_vols strict smax recs = Some nv /\ (1 <= nv)%nat /\
       o = obs_of fp nlab (n_slices recs) nv (fun j => n_distinct (column labs j recs)) (select dummy idx recs).
   Proof.
     unfold Model.load. destruct (header_init permit expd smax recs) as [[]|e] eqn:HI; [|discriminate].
     destruct (sorted_slice_indices strict smax recs) as [idx'|] eqn:SI; [|discriminate].
-    destruct (n_vols smax recs) as [nv|] eqn:NV; [|discriminate].
+    destruct (n_vols strict smax recs) as [nv|] eqn:NV; [|discriminate].
+    destruct nv as [|nv]; [discriminate|].
     intros H. inversion H; subst idx' o. clear H.
-    split; [reflexivity|]. split; [reflexivity|]. exists nv. split; [reflexivity|].
+    split; [reflexivity|]. split; [reflexivity|]. exists (S nv). split; [reflexivity|]. split; [lia|].
     pose proof (ssi_valid strict smax recs idx SI) as [_ IRg].
     unfold obs_of, data_scaling, unscaled, volume_labels, labels_of. cbn [fst snd].
     rewrite (select_map_indep pid dummy (-1) idx recs IRg).
@@ -739,7 +954,7 @@ Section Obs.
         nth k (o_payload o) (-1) = pid r /\
         nth k (o_slope o) 0 = slope_of fp r /\ nth k (o_inter o) 0 = inter_of fp r.
   Proof.
-    intros H. destruct (load_ok _ _ _ _ _ _ _ _ _ H) as [_ [SI [nv [_ ->]]]].
+    intros H. destruct (load_ok _ _ _ _ _ _ _ _ _ H) as [_ [SI [nv [_ [_ ->]]]]].
     pose proof (ssi_valid strict smax recs idx SI) as [ND IRg].
     cbn [obs_of o_payload o_slope o_inter]. rewrite !map_length, select_length.
     repeat (split; [assumption || reflexivity|]).
@@ -759,20 +974,30 @@ Section Obs.
   Qed.
 
   (* the strict-sorted records do not depend on the record order *)
+  Lemma n_vols_strict_perm smax recs recs' : Permutation recs recs' -> NoDup (map keys recs) ->
+    n_vols true smax recs = n_vols true smax recs'.
+  Proof. intros P N. rewrite !n_vols_strict. now rewrite (stage1_perm_invariant recs recs' P N). Qed.
+
+  Lemma n_used_strict_perm smax recs recs' : Permutation recs recs' -> NoDup (map keys recs) ->
+    n_used true smax recs = n_used true smax recs'.
+  Proof.
+    intros P N. unfold n_used. now rewrite (n_vols_strict_perm smax recs recs' P N), (n_slices_perm recs recs' P).
+  Qed.
+
   Lemma strict_records_perm smax recs recs' :
     Permutation recs recs' -> NoDup (map keys recs) ->
     option_map (fun idx => select dummy idx recs) (sorted_slice_indices true smax recs) =
     option_map (fun idx => select dummy idx recs') (sorted_slice_indices true smax recs').
   Proof.
     intros P N. unfold sorted_slice_indices.
-    rewrite <- (n_used_perm smax recs recs' P).
+    rewrite <- (n_used_strict_perm smax recs recs' P N).
     pose proof (strict_records smax recs) as R. pose proof (strict_records smax recs') as R'.
     rewrite <- (stage1_perm_invariant recs recs' P N) in R'.
     destruct (strict_sort_order smax recs) as [o|], (strict_sort_order smax recs') as [o'|];
       cbn [option_map] in R, R'; try congruence.
-    - destruct (n_used smax recs) as [n|]; [|reflexivity]. cbn [option_map].
+    - destruct (n_used true smax recs) as [n|]; [|reflexivity]. cbn [option_map].
       rewrite !select_firstn. rewrite <- R' in R. inversion R as [R1]. now rewrite R1.
-    - now destruct (n_used smax recs).
+    - now destruct (n_used true smax recs).
   Qed.
 
   (* ---- lax order: unchanged when every record keeps its volume number *)
@@ -781,7 +1006,7 @@ Section Obs.
 
   Lemma full_as_map sn smax full : vol_is_full sn smax = Some full -> full = map (fb smax sn) (vol_numbers sn).
   Proof.
-    unfold vol_is_full. destruct (negb (forallb (fun s => memz s (zrange 1 smax)) sn)); [discriminate|].
+    unfold vol_is_full, vol_is_full_with. destruct (negb (forallb (fun s => memz s (zrange 1 smax)) sn)); [discriminate|].
     intros H. inversion H. apply map_ext_in. intros v Hv.
     apply (lookup_tab (fb smax sn)). now apply nodup_In.
   Qed.
@@ -821,10 +1046,14 @@ Section Obs.
     assert (Ps : Permutation (map sl recs) (map sl recs')) by now apply Permutation_map.
     unfold sorted_slice_indices. rewrite <- (n_used_perm smax recs recs' P).
     destruct (lax_sort_order smax recs) as [o|] eqn:EO, (lax_sort_order smax recs') as [o'|] eqn:EO'.
-    - destruct (n_used smax recs) as [n|]; [|reflexivity]. cbn [option_map]. rewrite !select_firstn.
-      destruct (order_records false smax recs o EO) as [full [E R]].
-      destruct (order_records false smax recs' o' EO') as [full' [E' R']].
-      cbn [base_of kf_of] in *. rewrite R, R'. do 3 f_equal.
+    - destruct (n_used false smax recs) as [n|]; [|reflexivity]. cbn [option_map]. rewrite !select_firstn.
+      destruct (order_records false smax recs o EO) as [vn [full [E0 R]]].
+      destruct (order_records false smax recs' o' EO') as [vn' [full' [E0' R']]].
+      cbn [base_of kf_of vols_of] in *.
+      destruct (vol_is_full (map sl recs) smax) as [f1|] eqn:E; [|discriminate]. inversion E0; subst vn full. clear E0.
+      destruct (vol_is_full (map sl recs') smax) as [f2|] eqn:E'; [|discriminate]. inversion E0'; subst vn' full'. clear E0'.
+      rename f1 into full. rename f2 into full'.
+      rewrite R, R'. do 3 f_equal.
       apply (isort_perm_invariant _ k3).
       + intros; apply key_le_total.
       + intros x y z; apply key_le_trans.
@@ -855,42 +1084,32 @@ Section Obs.
     - exfalso. unfold lax_sort_order in EO, EO'.
       destruct (vol_is_full (map sl recs) smax) eqn:E; [discriminate|].
       apply (vol_is_full_none_perm _ _ smax Ps) in E. rewrite E in EO'. discriminate.
-    - now destruct (n_used smax recs).
+    - now destruct (n_used false smax recs).
   Qed.
 
   (* equal sorted records + permuted records => equal observables *)
   Lemma obs_independent_gen (strict : bool) permit fp expd smax nlab recs recs' :
     Permutation recs recs' ->
+    n_vols strict smax recs = n_vols strict smax recs' ->
     option_map (fun idx => select dummy idx recs) (sorted_slice_indices strict smax recs) =
     option_map (fun idx => select dummy idx recs') (sorted_slice_indices strict smax recs') ->
     res_obs (load strict permit fp expd smax nlab recs) = res_obs (load strict permit fp expd smax nlab recs').
   Proof.
-    intros P SR.
-    destruct (load strict permit fp expd smax nlab recs) as [[idx o]|e] eqn:L1,
-             (load strict permit fp expd smax nlab recs') as [[idx' o']|e'] eqn:L2; cbn [res_obs snd].
-    - destruct (load_ok _ _ _ _ _ _ _ _ _ L1) as [_ [SI [nv [NV ->]]]].
-      destruct (load_ok _ _ _ _ _ _ _ _ _ L2) as [_ [SI' [nv' [NV' ->]]]].
-      rewrite SI, SI' in SR.
-      cbn [option_map] in SR. inversion SR as [SR1]. rewrite SR1.
-      rewrite (n_vols_perm smax recs recs' P), NV' in NV. inversion NV; subst nv'.
-      rewrite (n_slices_perm recs recs' P). f_equal. unfold obs_of. f_equal.
-      unfold labels_of. apply map_ext. intros j.
-      now rewrite (n_distinct_perm _ _ (column_perm labs j recs recs' P)).
-    - exfalso. destruct (load_ok _ _ _ _ _ _ _ _ _ L1) as [HI [SI [nv [NV _]]]].
-      unfold Model.load in L2. rewrite <- (header_init_perm permit expd smax recs recs' P), HI in L2.
-      rewrite SI in SR.
-      destruct (sorted_slice_indices strict smax recs') as [i'|]; [|discriminate].
-      rewrite <- (n_vols_perm smax recs recs' P), NV in L2. discriminate.
-    - exfalso. destruct (load_ok _ _ _ _ _ _ _ _ _ L2) as [HI [SI [nv [NV _]]]].
-      unfold Model.load in L1. rewrite (header_init_perm permit expd smax recs recs' P), HI in L1.
-      rewrite SI in SR.
-      destruct (sorted_slice_indices strict smax recs) as [i'|]; [|discriminate].
-      rewrite (n_vols_perm smax recs recs' P), NV in L1. discriminate.
-    - unfold Model.load in L1, L2. rewrite (header_init_perm permit expd smax recs recs' P) in L1.
-      destruct (header_init permit expd smax recs') as [[]|e0]; [|congruence].
-      rewrite (n_vols_perm smax recs recs' P) in L1.
-      destruct (sorted_slice_indices strict smax recs), (n_vols smax recs'),
-        (sorted_slice_indices strict smax recs'); congruence.
+    intros P HNV SR. unfold Model.load.
+    rewrite (header_init_perm permit expd smax recs recs' P), <- HNV.
+    destruct (header_init permit expd smax recs') as [[]|e0]; [|reflexivity].
+    destruct (sorted_slice_indices strict smax recs) as [idx|] eqn:SI,
+             (sorted_slice_indices strict smax recs') as [idx'|] eqn:SI'; cbn [option_map] in SR; try discriminate.
+    - destruct (n_vols strict smax recs) as [[|nv]|]; try reflexivity. cbn [res_obs snd].
+      pose proof (ssi_valid strict smax recs idx SI) as [_ IRg].
+      pose proof (ssi_valid strict smax recs' idx' SI') as [_ IRg'].
+      unfold data_scaling, unscaled, volume_labels. cbn [fst snd].
+      rewrite (select_map_indep pid dummy (-1) idx recs IRg), (select_map_indep pid dummy (-1) idx' recs' IRg').
+      rewrite (select_map_indep (slope_of fp) dummy 0 idx recs IRg), (select_map_indep (slope_of fp) dummy 0 idx' recs' IRg').
+      rewrite (select_map_indep (inter_of fp) dummy 0 idx recs IRg), (select_map_indep (inter_of fp) dummy 0 idx' recs' IRg').
+      inversion SR as [SR1]. rewrite SR1, (n_slices_perm recs recs' P). do 2 f_equal.
+      apply map_ext. intros j. now rewrite (n_distinct_perm _ _ (column_perm labs j recs recs' P)).
+    - destruct (n_vols strict smax recs); reflexivity.
   Qed.
 
   (* C20_order_independent *)
@@ -898,7 +1117,7 @@ Section Obs.
     Permutation recs recs' -> NoDup (map keys recs) ->
     res_obs (load true permit fp expd smax nlab recs) = res_obs (load true permit fp expd smax nlab recs').
   Proof.
-    intros P N. apply obs_independent_gen; [assumption|]. now apply strict_records_perm.
+    intros P N. apply obs_independent_gen; [assumption|now apply n_vols_strict_perm|now apply strict_records_perm].
   Qed.
 
   (* C20_lax_order_preserving *)
@@ -906,84 +1125,18 @@ Section Obs.
     Permutation (combine recs (vol_numbers (map sl recs))) (combine recs' (vol_numbers (map sl recs'))) ->
     res_obs (load false permit fp expd smax nlab recs) = res_obs (load false permit fp expd smax nlab recs').
   Proof.
-    intros HP. apply obs_independent_gen; [|now apply lax_records_perm].
-    apply (Permutation_map fst) in HP. now rewrite !map_fst_combine in HP by now rewrite vn_length, map_length.
+    intros HP.
+    assert (P : Permutation recs recs').
+    { apply (Permutation_map fst) in HP. now rewrite !map_fst_combine in HP by now rewrite vn_length, map_length. }
+    apply obs_independent_gen; [assumption|now apply n_vols_perm|now apply lax_records_perm].
   Qed.
 End Obs.
 
 (* ------------------------------------------------------------ strict order, label level *)
-(* When the stage-1 (key) order consists of complete volumes followed by at most one
-   incomplete volume, the output is exactly the complete volumes, in key order, each with
-   its slices 1..slice_max in order. *)
-Lemma vna_app seen a b :
-  vol_numbers_aux seen (a ++ b) = vol_numbers_aux seen a ++ vol_numbers_aux (rev a ++ seen) b.
-Proof.
-  revert seen; induction a as [|x a IH]; intros seen; [reflexivity|].
-  cbn [app vol_numbers_aux rev]. rewrite IH. now rewrite <- app_assoc.
-Qed.
-
-Lemma vna_block seen a k : NoDup a -> (forall s, In s a -> cnt seen s = k) ->
-  vol_numbers_aux seen a = repeat (Z.of_nat k) (length a).
-Proof.
-  revert seen; induction a as [|x a IH]; intros seen N H; [reflexivity|].
-  inversion N as [|? ? Hx Na]; subst. cbn [vol_numbers_aux length repeat].
-  rewrite (H x) by now left. f_equal. apply IH; [assumption|].
-  intros s Hs. rewrite count_occ_cons_neq by (intros ->; contradiction). apply H. now right.
-Qed.
-
 Lemma zrange_NoDup lo hi : NoDup (zrange lo hi).
 Proof.
   unfold zrange. apply FinFun.Injective_map_NoDup; [|apply seq_NoDup]. intros a b E. lia.
 Qed.
-
-Lemma cnt_zrange lo hi s : cnt (zrange lo hi) s = if (lo <=? s) && (s <=? hi) then 1%nat else 0%nat.
-Proof.
-  destruct ((lo <=? s) && (s <=? hi)) eqn:E.
-  - apply NoDup_count_occ'; [apply zrange_NoDup|]. apply zrange_In. lia.
-  - apply count_occ_not_In. rewrite zrange_In. lia.
-Qed.
-
-Fixpoint blocks (k m n : nat) : list Z :=
-  match m with O => [] | S m' => repeat (Z.of_nat k) n ++ blocks (S k) m' n end.
-
-Definition complete_group (smax : Z) (G : list rec) : Prop := map sl G = zrange 1 smax.
-
-Lemma cnt_groups smax Gs s : Forall (complete_group smax) Gs -> 1 <= s <= smax ->
-  cnt (map sl (concat Gs)) s = length Gs.
-Proof.
-  intros F Hs. induction F as [|G Gs HG F IH]; [reflexivity|].
-  cbn [concat length]. rewrite map_app, count_occ_app, IH, HG, cnt_zrange.
-  destruct ((1 <=? s) && (s <=? smax)) eqn:E; lia.
-Qed.
-
-Lemma vna_groups smax Gs : forall seen k tl_,
-  (forall s, 1 <= s <= smax -> cnt seen s = k) -> Forall (complete_group smax) Gs ->
-  NoDup tl_ -> (forall s, In s tl_ -> 1 <= s <= smax) ->
-  vol_numbers_aux seen (map sl (concat Gs) ++ tl_) =
-  blocks k (length Gs) (length (zrange 1 smax)) ++ repeat (Z.of_nat (k + length Gs)) (length tl_).
-Proof.
-  induction Gs as [|G Gs IH]; intros seen k tl_ Hk F N R.
-  - cbn [concat map app length blocks]. rewrite Nat.add_0_r. apply vna_block; [assumption|].
-    intros s Hs. apply Hk. now apply R.
-  - inversion F as [|? ? HG F']; subst. cbn [concat length blocks]. rewrite map_app, <- app_assoc, vna_app, HG.
-    rewrite (vna_block seen (zrange 1 smax) k) by (try apply zrange_NoDup; intros s Hs; apply Hk; now apply zrange_In).
-    rewrite <- app_assoc. f_equal.
-    rewrite (IH (rev (zrange 1 smax) ++ seen) (S k) tl_); try assumption.
-    + now rewrite Nat.add_succ_comm.
-    + intros s Hs. rewrite count_occ_app, count_occ_rev, cnt_zrange, (Hk s Hs).
-      destruct ((1 <=? s) && (s <=? smax)) eqn:E; lia.
-Qed.
-
-Lemma blocks_In k m n v : In v (blocks k m n) -> exists i, v = Z.of_nat i /\ (k <= i < k + m)%nat.
-Proof.
-  revert k; induction m as [|m IH]; intros k H; [destruct H|].
-  cbn [blocks] in H. apply in_app_or in H. destruct H as [H|H].
-  - apply repeat_spec in H. exists k. split; [assumption|lia].
-  - destruct (IH _ H) as [i [E Hi]]. exists i. split; [assumption|lia].
-Qed.
-
-Lemma blocks_length k m n : length (blocks k m n) = (m * n)%nat.
-Proof. revert k; induction m as [|m IH]; intros k; [reflexivity|]. cbn. rewrite app_length, repeat_length, IH. lia. Qed.
 
 Lemma sorted_app_le (a b : list Z) (k : Z) :
   StronglySorted Z.le a -> StronglySorted Z.le b -> (forall x, In x a -> x <= k) -> (forall y, In y b -> k <= y) ->
@@ -1001,167 +1154,38 @@ Proof.
   rewrite Forall_forall. intros y Hy. apply repeat_spec in Hy. lia.
 Qed.
 
-Lemma blocks_sorted k m n : StronglySorted Z.le (blocks k m n).
-Proof.
-  revert k; induction m as [|m IH]; intros k; [constructor|]. cbn [blocks].
-  apply (sorted_app_le _ _ (Z.of_nat k)); [apply repeat_sorted|apply IH| |].
-  - intros x Hx. apply repeat_spec in Hx. lia.
-  - intros y Hy. apply blocks_In in Hy. destruct Hy as [i [-> Hi]]. lia.
-Qed.
-
-Lemma isort_sorted_id {A} (le : A -> A -> bool) l :
-  StronglySorted (fun a b => le a b = true) l -> isort le l = l.
-Proof.
-  intros S. induction S as [|x l S IH F]; [reflexivity|].
-  cbn [isort fold_right]. fold (isort le l). rewrite IH.
-  destruct l as [|y r]; [reflexivity|]. cbn [insert]. inversion F as [|? ? Hy _]; subst. now rewrite Hy.
-Qed.
-
-Lemma k2_mono (m : Z) (a b : ann) :
-  snd (snd a) = (fst (snd a) <? m) -> snd (snd b) = (fst (snd b) <? m) -> fst (snd a) <= fst (snd b) ->
-  key_le (k2 a) (k2 b) = true.
-Proof.
-  destruct a as [ra [va fa]], b as [rb [vb fb0]]. cbn [fst snd]. intros -> -> H.
-  unfold k2, key2, key_le. cbn [fst snd rev app lex_le].
-  destruct (Z.ltb_spec va m), (Z.ltb_spec vb m); cbn [negb b2z]; try lia;
-    repeat (match goal with |- context [?x <? ?y] => destruct (Z.ltb_spec x y); try lia end); reflexivity.
-Qed.
-
-Lemma annot_sorted (m : Z) (AL : list ann) :
-  StronglySorted Z.le (map (fun a : ann => fst (snd a)) AL) ->
-  (forall a, In a AL -> snd (snd a) = (fst (snd a) <? m)) ->
-  StronglySorted (fun a b => key_le (k2 a) (k2 b) = true) AL.
-Proof.
-  induction AL as [|a AL IH]; intros S H; [constructor|].
-  cbn [map] in S. inversion S as [|? ? S' F]; subst. constructor.
-  - apply IH; [assumption|]. intros b Hb. apply H. now right.
-  - rewrite Forall_forall in *. intros b Hb. apply (k2_mono m).
-    + apply H. now left. + apply H. now right.
-    + apply F. apply (in_map (fun a : ann => fst (snd a))). exact Hb.
-Qed.
-
-Lemma map_vn_combine {A} (L : list A) (vn : list Z) (full : list bool) :
-  length L = length vn -> length vn = length full ->
-  map (fun a : A * (Z * bool) => fst (snd a)) (combine L (combine vn full)) = vn.
-Proof.
-  revert vn full; induction L as [|x L IH]; intros [|v vn] [|b full] H1 H2; cbn in *; try lia; try reflexivity.
-  f_equal. apply IH; lia.
-Qed.
-
-Lemma in_annot_map {A} (g : Z -> bool) (L : list A) (vn : list Z) a :
-  In a (combine L (combine vn (map g vn))) -> snd (snd a) = g (fst (snd a)).
-Proof.
-  revert vn; induction L as [|x L IH]; intros [|v vn] H; cbn in H; try tauto.
-  destruct H as [<-|H]; [reflexivity|now apply IH in H].
-Qed.
-
-Lemma filter_true_count (g : Z -> bool) (vn : list Z) :
-  length (filter (fun b : bool => b) (map g vn)) = length (filter g vn).
-Proof. induction vn as [|v vn IH]; [reflexivity|]. cbn. destruct (g v); cbn; now rewrite IH. Qed.
-
 Lemma filter_all_true {A} (p : A -> bool) l : (forall x, In x l -> p x = true) -> filter p l = l.
 Proof.
   induction l as [|x l IH]; intros H; [reflexivity|]. cbn. rewrite (H x) by now left.
   f_equal. apply IH. intros y Hy. apply H. now right.
 Qed.
 
-Lemma filter_blocks_lt k m n t :
-  filter (fun v => v <? Z.of_nat (k + m)) (blocks k m n ++ repeat (Z.of_nat (k + m)) t) = blocks k m n.
+Lemma StronglySorted_map_in {A B} (R : A -> A -> Prop) (R' : B -> B -> Prop) (f : A -> B) l :
+  StronglySorted R l -> (forall a b, In a l -> In b l -> R a b -> R' (f a) (f b)) -> StronglySorted R' (map f l).
 Proof.
-  rewrite filter_app.
-  assert (filter (fun v => v <? Z.of_nat (k + m)) (repeat (Z.of_nat (k + m)) t) = []) as ->.
-  { induction t as [|t IH]; [reflexivity|]. cbn. now rewrite Z.ltb_irrefl. }
-  rewrite app_nil_r. apply filter_all_true. intros v Hv.
-  apply blocks_In in Hv. destruct Hv as [i [-> Hi]]. lia.
+  intros S. induction S as [|x l S IH F]; intros H; [constructor|]. cbn. constructor.
+  - apply IH. intros a b Ha Hb. apply H; now right.
+  - rewrite Forall_forall in *. intros y Hy. apply in_map_iff in Hy. destruct Hy as [b [<- Hb]].
+    apply H; [now left|now right|now apply F].
 Qed.
 
-(* C20_strict_complete_volumes *)
-Lemma strict_complete_volumes smax recs Gs T idx :
-  stage1 recs = concat Gs ++ T -> Gs <> [] -> 1 <= smax ->
-  Forall (complete_group smax) Gs ->
-  NoDup (map sl T) -> (forall s, In s (map sl T) -> 1 <= s <= smax) ->
-  (exists s0, 1 <= s0 <= smax /\ ~ In s0 (map sl T)) ->
-  sorted_slice_indices true smax recs = Some idx ->
-  select dummy idx recs = concat Gs.
+Lemma sorted_lt_NoDup (l : list Z) : StronglySorted Z.lt l -> NoDup l.
 Proof.
-  intros HL HG Hs F NT RT [s0 [Hs0 Ns0]] SI.
-  set (L := stage1 recs) in *. set (m := length Gs). set (n := length (zrange 1 smax)).
-  set (sn := map sl L).
-  assert (Esn : sn = map sl (concat Gs) ++ map sl T) by (unfold sn; now rewrite HL, map_app).
-  (* volume numbers of the key-ordered records *)
-  assert (Evn : vol_numbers sn = blocks 0 m n ++ repeat (Z.of_nat m) (length T)).
-  { unfold vol_numbers. rewrite Esn, (vna_groups smax Gs [] 0%nat (map sl T)); try assumption.
-    - now rewrite map_length. - reflexivity. }
-  (* the slice numbers are in range, so vol_is_full answers *)
-  destruct (vol_is_full_spec sn smax) as [[IR [full [E [LF S]]]]|[NR _]].
-  2:{ exfalso. apply NR. intros s Hin. rewrite Esn in Hin. apply in_app_or in Hin. destruct Hin as [Hin|Hin]; [|now apply RT].
-      clear -Hin F. induction F as [|G Gs HG F IH]; [destruct Hin|]. cbn [concat] in Hin. rewrite map_app in Hin.
-      apply in_app_or in Hin. destruct Hin as [Hin|Hin]; [rewrite HG in Hin; now apply zrange_In|now apply IH]. }
-  assert (Cnt : forall s, 1 <= s <= smax -> cnt sn s = (m + cnt (map sl T) s)%nat).
-  { intros s Hr. rewrite Esn, count_occ_app. now rewrite (cnt_groups smax Gs s F Hr). }
-  assert (Efull : full = map (fun v => v <? Z.of_nat m) (vol_numbers sn)).
-  { rewrite (full_as_map sn smax full E) at 1. apply map_ext_in. intros v Hv.
-    pose proof (fb_fullv sn smax full v E Hv) as FB.
-    rewrite Evn in Hv. apply in_app_or in Hv.
-    destruct (Z.ltb_spec v (Z.of_nat m)) as [Hlt|Hge].
-    - apply FB. intros s Hr. apply vn_in. destruct Hv as [Hv|Hv].
-      + apply blocks_In in Hv. destruct Hv as [i [-> Hi]]. exists i. split; [reflexivity|]. rewrite (Cnt s Hr). lia.
-      + apply repeat_spec in Hv. lia.
-    - destruct (fb smax sn v) eqn:Efb; [|reflexivity]. exfalso.
-      assert (FV : fullv sn smax v) by now apply FB.
-      specialize (FV s0 Hs0). apply vn_in in FV. destruct FV as [k [-> Hk]].
-      rewrite (Cnt s0 Hs0), (proj1 (count_occ_not_In Z.eq_dec (map sl T) s0) Ns0) in Hk. lia. }
-  (* the second-stage sort leaves the key order unchanged *)
-  pose proof (ssi_valid true smax recs idx SI) as [_ IRg].
-  unfold sorted_slice_indices in SI.
-  destruct (strict_sort_order smax recs) as [order|] eqn:EO; [|discriminate].
-  destruct (n_used smax recs) as [nu|] eqn:ENU; [|discriminate]. inversion SI; subst idx. clear SI.
-  destruct (order_records true smax recs order EO) as [full' [E' R]]. cbn [base_of kf_of] in E', R.
-  fold L in E', R. fold sn in E'. rewrite E in E'. inversion E'; subst full'. clear E'.
-  assert (Lvn : length (vol_numbers sn) = length sn) by apply vn_length.
-  assert (Lsn : length sn = length L) by (unfold sn; apply map_length).
-  rewrite isort_sorted_id in R.
-  2:{ apply (annot_sorted (Z.of_nat m)).
-      - unfold annot. fold sn. rewrite map_vn_combine by lia. rewrite Evn.
-        apply (sorted_app_le _ _ (Z.of_nat m)); [apply blocks_sorted|apply repeat_sorted| |].
-        + intros x Hx. apply blocks_In in Hx. destruct Hx as [i [-> Hi]]. lia.
-        + intros y Hy. apply repeat_spec in Hy. lia.
-      - intros a Ha. unfold annot in Ha. fold sn in Ha. rewrite Efull in Ha. now apply in_annot_map in Ha. }
-  rewrite (annot_fst L smax full E) in R.
-  rewrite select_firstn, R.
-  (* the trim length is the number of records of the complete volumes *)
-  assert (Hnu : nu = (m * n)%nat).
-  { assert (PL : Permutation L recs) by apply stage1_perm.
-    assert (Ps : Permutation sn (map sl recs)) by (unfold sn; now apply Permutation_map).
-    assert (Cf : length (filter (fun b : bool => b) full) = (m * n)%nat).
-    { rewrite Efull, filter_true_count, Evn.
-      pose proof (filter_blocks_lt 0 m n (length T)) as FB0. cbn [Nat.add] in FB0. rewrite FB0. apply blocks_length. }
-    pose proof (full_count sn smax full E) as FC. rewrite Cf in FC.
-    pose proof (nvols_seq_perm _ _ smax Ps) as Q. unfold nvols_seq at 1 in Q. rewrite E in Q.
-    rewrite <- n_vols_seq in Q. unfold n_used in ENU. rewrite <- Q in ENU. inversion ENU as [ENU'].
-    unfold n_slices. rewrite <- (n_distinct_perm _ _ Ps).
-    set (nd := n_distinct sn) in *.
-    set (nv := n_distinct (map fst (filter snd (combine (vol_numbers sn) full)))) in *.
-    assert (Hm : (1 <= m)%nat) by (unfold m; destruct Gs; [contradiction|cbn; lia]).
-    assert (Hn : (1 <= n)%nat) by (unfold n, zrange; rewrite map_length, seq_length; lia).
-    assert (nv <> 0)%nat by (intros Z0; rewrite Z0 in FC; nia).
-    destruct (Nat.ltb_spec 1 nv); [lia|]. assert (nv = 1%nat) by lia. nia. }
-  rewrite Hnu, HL.
-  assert (Lc : length (concat Gs) = (m * n)%nat).
-  { clear -F. unfold m, n. induction F as [|G Gs HG F IH]; [reflexivity|]. cbn [concat length].
-    rewrite app_length, IH. apply (f_equal (@length Z)) in HG. rewrite map_length in HG. rewrite HG. lia. }
-  rewrite <- Lc. apply firstn_app_exact.
+  intros S. induction S as [|x l S IH F]; constructor; [|assumption].
+  rewrite Forall_forall in F. intros Hx. specialize (F x Hx). lia.
 Qed.
 
-(* ------------------------------------------------------------ the key order groups records by label *)
+Lemma zrange_sorted lo hi : StronglySorted Z.lt (zrange lo hi).
+Proof.
+  unfold zrange. generalize (Z.to_nat (hi + 1 - lo)) as n. intros n.
+  assert (G : forall k, StronglySorted Z.lt (map (fun i => lo + Z.of_nat i) (seq k n))).
+  { induction n as [|n IH]; intros k; cbn; constructor; [apply IH|].
+    rewrite Forall_forall. intros y Hy. apply in_map_iff in Hy. destruct Hy as [i [<- Hi]]. apply in_seq in Hi. lia. }
+  apply G.
+Qed.
+
 (* keys r = slice number :: label keys; the slice number is the least significant sort key *)
-Definition lab (r : rec) : list Z := tl (keys r).
-Fixpoint zl_eqb (a b : list Z) : bool :=
-  match a, b with
-  | [], [] => true
-  | x :: a', y :: b' => (x =? y) && zl_eqb a' b'
-  | _, _ => false
-  end.
+Notation lab := labrow.
 Lemma zl_eqb_spec a b : zl_eqb a b = true <-> a = b.
 Proof.
   revert b; induction a as [|x a IH]; intros [|y b]; cbn; split; intros H; try discriminate; try reflexivity.
@@ -1170,18 +1194,19 @@ Proof.
 Qed.
 Definition same_lab (x r : rec) : bool := zl_eqb (lab r) (lab x).
 
-(* lexicographic facts for tuples of equal length followed by one more (least significant) component *)
 Lemma lex_snoc_le u v x y : length u = length v -> lex_le (u ++ [x]) (v ++ [y]) = true -> lex_le u v = true.
 Proof.
   revert v; induction u as [|a u IH]; intros [|b v] L H; cbn in *; try lia; try reflexivity.
   destruct (a <? b); [reflexivity|]. destruct (b <? a); [discriminate|]. apply IH; [lia|assumption].
 Qed.
+
 Lemma lex_snoc_same u x y : lex_le (u ++ [x]) (u ++ [y]) = (x <=? y).
 Proof.
   induction u as [|a u IH]; cbn.
   - destruct (Z.ltb_spec x y), (Z.ltb_spec y x), (Z.leb_spec x y); try lia; reflexivity.
   - now rewrite Z.ltb_irrefl.
 Qed.
+
 Lemma lex_snoc_gt u v x y : length u = length v -> lex_le u v = true -> u <> v -> lex_le (v ++ [y]) (u ++ [x]) = false.
 Proof.
   revert v; induction u as [|a u IH]; intros [|b v] L H N; cbn in *; try lia; try congruence.
@@ -1189,23 +1214,18 @@ Proof.
   assert (a = b) by lia. subst. apply IH; [lia|assumption|congruence].
 Qed.
 
+(* a condition on the record list alone *)
 Record keyed (smax : Z) (l : list rec) : Prop := {
   k_shape : forall r, In r l -> keys r = sl r :: lab r;
   k_len : forall a b, In a l -> In b l -> length (keys a) = length (keys b);
-  k_range : forall r, In r l -> 1 <= sl r <= smax;
-  k_closed : forall r s, In r l -> 1 <= s <= smax -> exists r', In r' l /\ lab r' = lab r /\ sl r' = s
+  k_range : forall r, In r l -> 1 <= sl r <= smax
 }.
 
-Lemma keyed_filter smax l x : keyed smax l -> keyed smax (filter (fun r => negb (same_lab x r)) l).
-Proof.
-  intros [H1 H2 H3 H4]. split.
-  - intros r Hr. apply filter_In in Hr. now apply H1.
-  - intros a b Ha Hb. apply filter_In in Ha, Hb. now apply H2.
-  - intros r Hr. apply filter_In in Hr. now apply H3.
-  - intros r s Hr Hs. apply filter_In in Hr. destruct Hr as [Hr Nr].
-    destruct (H4 r s Hr Hs) as [r' [Hr' [E1 E2]]]. exists r'. split; [|auto].
-    apply filter_In. split; [assumption|]. unfold same_lab in *. now rewrite E1.
-Qed.
+Lemma keyed_incl smax l l' : (forall r, In r l' -> In r l) -> keyed smax l -> keyed smax l'.
+Proof. intros I [H1 H2 H3]. split; auto. Qed.
+
+Lemma keyed_perm smax l l' : Permutation l l' -> keyed smax l -> keyed smax l'.
+Proof. intros P. apply keyed_incl. intros r. apply Permutation_in. now symmetry. Qed.
 
 Definition klt (a b : rec) : Prop := rec_le a b = true /\ keys a <> keys b.
 
@@ -1254,35 +1274,18 @@ Fixpoint groups (fuel : nat) (l : list rec) : list (list rec) :=
   | _, _ => []
   end.
 
-Lemma StronglySorted_map_in {A B} (R : A -> A -> Prop) (R' : B -> B -> Prop) (f : A -> B) l :
-  StronglySorted R l -> (forall a b, In a l -> In b l -> R a b -> R' (f a) (f b)) -> StronglySorted R' (map f l).
-Proof.
-  intros S. induction S as [|x l S IH F]; intros H; [constructor|]. cbn. constructor.
-  - apply IH. intros a b Ha Hb. apply H; now right.
-  - rewrite Forall_forall in *. intros y Hy. apply in_map_iff in Hy. destruct Hy as [b [<- Hb]].
-    apply H; [now left|now right|now apply F].
-Qed.
-
-Lemma sorted_lt_NoDup (l : list Z) : StronglySorted Z.lt l -> NoDup l.
-Proof.
-  intros S. induction S as [|x l S IH F]; constructor; [|assumption].
-  rewrite Forall_forall in F. intros Hx. specialize (F x Hx). lia.
-Qed.
-
-Lemma zrange_sorted lo hi : StronglySorted Z.lt (zrange lo hi).
-Proof.
-  unfold zrange. generalize (Z.to_nat (hi + 1 - lo)) as n. intros n.
-  assert (G : forall k, StronglySorted Z.lt (map (fun i => lo + Z.of_nat i) (seq k n))).
-  { induction n as [|n IH]; intros k; cbn; constructor; [apply IH|].
-    rewrite Forall_forall. intros y Hy. apply in_map_iff in Hy. destruct Hy as [i [<- Hi]]. apply in_seq in Hi. lia. }
-  apply G.
-Qed.
-
 Definition one_label (G : list rec) : Prop := forall a b, In a G -> In b G -> lab a = lab b.
+Definition slice_sorted (G : list rec) : Prop := StronglySorted Z.lt (map sl G).
+(* non-empty runs of one label each, the labels of different runs different *)
+Fixpoint sep (Gs : list (list rec)) : Prop :=
+  match Gs with
+  | [] => True
+  | G :: Gs' => G <> [] /\ one_label G /\ (forall a b, In a G -> In b (concat Gs') -> lab a <> lab b) /\ sep Gs'
+  end.
 
 Lemma groups_spec smax : forall fuel l,
   keyed smax l -> StronglySorted klt l -> (length l <= fuel)%nat ->
-  concat (groups fuel l) = l /\ Forall (complete_group smax) (groups fuel l) /\ Forall one_label (groups fuel l).
+  concat (groups fuel l) = l /\ sep (groups fuel l) /\ Forall slice_sorted (groups fuel l).
 Proof.
   induction fuel as [|f IH]; intros l K S Len.
   - destruct l; [cbn; auto|cbn in Len; lia].
@@ -1308,92 +1311,339 @@ Proof.
     { apply (f_equal (@length rec)) in Part. rewrite app_length in Part.
       assert (1 <= length (filter p l))%nat; [|unfold l in *; cbn [length] in *; lia].
       change (filter p l) with (if p x then x :: filter p l' else filter p l'). rewrite px. cbn. lia. }
-    destruct (IH (filter (fun r => negb (p r)) l) (keyed_filter smax l x K) (StronglySorted_filter _ _ _ S) Lr)
-      as [C1 [C2 C3]].
+    assert (K' : keyed smax (filter (fun r => negb (p r)) l)).
+    { apply (keyed_incl smax l); [|assumption]. intros r Hr. now apply filter_In in Hr. }
+    destruct (IH (filter (fun r => negb (p r)) l) K' (StronglySorted_filter _ _ _ S) Lr) as [C1 [C2 C3]].
     split; [|split].
     + cbn [concat]. fold p. rewrite C1. now rewrite <- Part.
-    + constructor; [|exact C2]. fold p. unfold complete_group.
-      set (G := filter p l).
-      assert (SG : StronglySorted Z.lt (map sl G)).
-      { apply (StronglySorted_map_in klt); [now apply StronglySorted_filter|].
-        intros a b Ha Hb [Le Ne]. apply filter_In in Ha, Hb. destruct Ha as [Ha Pa], Hb as [Hb Pb].
-        apply zl_eqb_spec in Pa, Pb.
-        rewrite (rec_le_keys smax l a b K Ha Hb), Pa, Pb, lex_snoc_same in Le.
-        rewrite (k_shape _ _ K a Ha), (k_shape _ _ K b Hb), Pa, Pb in Ne.
-        assert (sl a <> sl b) by congruence. lia. }
-      apply (sort_perm_unique Z.lt); try assumption; try apply zrange_sorted; try (intros; lia).
-      apply NoDup_Permutation; [now apply sorted_lt_NoDup|apply zrange_NoDup|].
-      intros s. rewrite zrange_In, in_map_iff. split.
-      * intros [r [<- Hr]]. apply filter_In in Hr. now apply (k_range _ _ K).
-      * intros Hs. destruct (k_closed _ _ K x s Hx Hs) as [r' [Hr' [E1 E2]]]. exists r'. split; [assumption|].
-        apply filter_In. split; [assumption|]. unfold p, same_lab. now apply zl_eqb_spec.
-    + constructor; [|exact C3]. fold p. intros a b Ha Hb. apply filter_In in Ha, Hb.
-      destruct Ha as [_ Pa], Hb as [_ Pb]. apply zl_eqb_spec in Pa, Pb. congruence.
+    + cbn [sep]. fold p. split; [|split; [|split; [|exact C2]]].
+      * intros E. assert (In x (filter p l)) by (apply filter_In; now split). rewrite E in H. destruct H.
+      * intros a b Ha Hb. apply filter_In in Ha, Hb.
+        destruct Ha as [_ Pa], Hb as [_ Pb]. apply zl_eqb_spec in Pa, Pb. congruence.
+      * intros a b Ha Hb. rewrite C1 in Hb. apply filter_In in Ha, Hb.
+        destruct Ha as [_ Pa], Hb as [_ Pb]. apply zl_eqb_spec in Pa. intros E.
+        unfold p, same_lab in Pb. rewrite <- E, Pa in Pb. rewrite (proj2 (zl_eqb_spec _ _) eq_refl) in Pb. discriminate.
+    + constructor; [|exact C3]. fold p. unfold slice_sorted.
+      apply (StronglySorted_map_in klt); [now apply StronglySorted_filter|].
+      intros a b Ha Hb [Le Ne]. apply filter_In in Ha, Hb. destruct Ha as [Ha Pa], Hb as [Hb Pb].
+      apply zl_eqb_spec in Pa, Pb.
+      rewrite (rec_le_keys smax l a b K Ha Hb), Pa, Pb, lex_snoc_same in Le.
+      rewrite (k_shape _ _ K a Ha), (k_shape _ _ K b Hb), Pa, Pb in Ne.
+      assert (sl a <> sl b) by congruence. lia.
 Qed.
 
-Lemma keyed_perm smax l l' : Permutation l l' -> keyed smax l -> keyed smax l'.
+Lemma stage1_sorted recs : NoDup (map keys recs) -> StronglySorted klt (stage1 recs).
 Proof.
-  intros P [H1 H2 H3 H4].
-  assert (I : forall r, In r l' -> In r l) by (intros r; apply Permutation_in; now symmetry).
-  assert (I' : forall r, In r l -> In r l') by (intros r; now apply Permutation_in).
-  split; auto.
-  intros r s Hr Hs. destruct (H4 r s (I r Hr) Hs) as [r' [Hr' E]]. exists r'. auto.
+  intros N. unfold klt. apply (sorted_strict rec_le keys).
+  - apply isort_sorted; unfold rec_le; intros; [apply key_le_total|eapply key_le_trans; eassumption].
+  - eapply Permutation_NoDup; [|exact N]. apply Permutation_map. symmetry. apply stage1_perm.
 Qed.
 
-(* the key-sorted list of a recording whose label groups are complete IS the sequence of its volumes *)
-Lemma labelled_blocks smax recs :
+(* ---- group numbers of a separated concatenation *)
+Fixpoint gnums (g : Z) (Gs : list (list rec)) : list Z :=
+  match Gs with [] => [] | G :: Gs' => repeat g (length G) ++ gnums (g + 1) Gs' end.
+
+Lemma gna_block prev g G rest : (forall r, In r G -> lab r = prev) ->
+  group_nos_aux prev g (map lab G ++ rest) = repeat g (length G) ++ group_nos_aux prev g rest.
+Proof.
+  induction G as [|x G IH]; intros H; [reflexivity|]. cbn [map app group_nos_aux length repeat].
+  rewrite (H x) by now left. rewrite (proj2 (zl_eqb_spec prev prev) eq_refl). f_equal.
+  apply IH. intros r Hr. apply H. now right.
+Qed.
+
+Lemma gna_groups Gs : forall prev g, sep Gs -> (forall r, In r (concat Gs) -> lab r <> prev) ->
+  group_nos_aux prev g (map lab (concat Gs)) = gnums (g + 1) Gs.
+Proof.
+  induction Gs as [|G Gs IH]; intros prev g S H; [reflexivity|].
+  destruct S as [NE [OL [SP S']]]. destruct G as [|x G0]; [contradiction|].
+  cbn [concat app map group_nos_aux gnums length repeat].
+  assert (Hx : zl_eqb (lab x) prev = false).
+  { destruct (zl_eqb (lab x) prev) eqn:E; [|reflexivity]. apply zl_eqb_spec in E. exfalso.
+    apply (H x); [now left|assumption]. }
+  rewrite Hx. f_equal. rewrite map_app, gna_block.
+  - f_equal. apply IH; [assumption|]. intros r Hr. apply not_eq_sym. apply (SP x r); [now left|assumption].
+  - intros r Hr. apply (OL r x); [now right|now left].
+Qed.
+
+Lemma group_nos_groups Gs : sep Gs -> group_nos (map lab (concat Gs)) = gnums 0 Gs.
+Proof.
+  destruct Gs as [|G Gs]; [reflexivity|]. intros [NE [OL [SP S']]]. destruct G as [|x G0]; [contradiction|].
+  cbn [concat app map group_nos gnums length repeat]. f_equal. rewrite map_app, gna_block.
+  - f_equal. apply gna_groups; [assumption|]. intros r Hr. apply not_eq_sym. apply (SP x r); [now left|assumption].
+  - intros r Hr. apply (OL r x); [now right|now left].
+Qed.
+
+Lemma gnums_ge g Gs v : In v (gnums g Gs) -> g <= v.
+Proof.
+  revert g; induction Gs as [|G Gs IH]; intros g H; [destruct H|]. cbn in H. apply in_app_or in H.
+  destruct H as [H|H]; [apply repeat_spec in H; lia|apply IH in H; lia].
+Qed.
+
+Lemma gnums_length g Gs : length (gnums g Gs) = length (concat Gs).
+Proof. revert g; induction Gs as [|G Gs IH]; intros g; [reflexivity|]. cbn. now rewrite !app_length, repeat_length, IH. Qed.
+
+Lemma gnums_sorted g Gs : StronglySorted Z.le (gnums g Gs).
+Proof.
+  revert g; induction Gs as [|G Gs IH]; intros g; [constructor|]. cbn [gnums].
+  apply (sorted_app_le _ _ g); [apply repeat_sorted|apply IH| |].
+  - intros x Hx. apply repeat_spec in Hx. lia.
+  - intros y Hy. apply gnums_ge in Hy. lia.
+Qed.
+
+(* ---- repeat numbers: all zero when the (group, slice) pairs are distinct *)
+Lemma vn2_zero seen l : NoDup l -> (forall p, In p l -> cnt2 seen p = O) ->
+  vol_numbers2_aux seen l = repeat 0 (length l).
+Proof.
+  revert seen; induction l as [|x l IH]; intros seen N H; [reflexivity|].
+  inversion N as [|? ? Hx N']; subst. cbn [vol_numbers2_aux length repeat].
+  pose proof (H x (or_introl eq_refl)) as H0. unfold cnt2 in H0. rewrite H0. f_equal.
+  apply IH; [assumption|]. intros p Hp. unfold cnt2. cbn [filter].
+  destruct (pair_eqb p x) eqn:E; [apply pair_eqb_spec in E; subst; contradiction|].
+  apply (H p). now right.
+Qed.
+
+Lemma combine_app {A B} (a a' : list A) (b b' : list B) : length a = length b ->
+  combine (a ++ a') (b ++ b') = combine a b ++ combine a' b'.
+Proof.
+  revert b; induction a as [|x a IH]; intros [|y b] H; cbn in *; try lia; [reflexivity|]. f_equal. apply IH. lia.
+Qed.
+
+Lemma NoDup_combine_r {A B} (a : list A) (b : list B) : NoDup b -> NoDup (combine a b).
+Proof.
+  revert a; induction b as [|y b IH]; intros [|x a] N; cbn; try constructor.
+  - inversion N; subst. intros H. apply in_combine_r in H. contradiction.
+  - inversion N; subst. now apply IH.
+Qed.
+
+Lemma pairs_nodup Gs : forall g, Forall slice_sorted Gs -> NoDup (combine (gnums g Gs) (map sl (concat Gs))).
+Proof.
+  induction Gs as [|G Gs IH]; intros g F; [constructor|]. inversion F as [|? ? SG F']; subst.
+  cbn [gnums concat]. rewrite map_app, combine_app by now rewrite repeat_length, map_length.
+  apply NoDup_app_intro; [apply NoDup_combine_r; now apply sorted_lt_NoDup|now apply IH|].
+  intros [v s] H1 H2. apply in_combine_l in H1, H2. apply repeat_spec in H1. apply gnums_ge in H2. lia.
+Qed.
+
+Lemma fold_max_repeat0 n : fold_right Z.max 0 (repeat 0 n) = 0.
+Proof. induction n as [|n IH]; [reflexivity|]. cbn. rewrite IH. reflexivity. Qed.
+
+Lemma vn_of_gn (gn : list Z) : map (fun p => fst p * (0 + 1) + snd p) (combine gn (repeat 0 (length gn))) = gn.
+Proof. induction gn as [|g gn IH]; [reflexivity|]. cbn [length repeat combine map fst snd]. rewrite IH. f_equal. lia. Qed.
+
+Lemma strict_vn_groups Gs : sep Gs -> Forall slice_sorted Gs -> strict_vn (concat Gs) = gnums 0 Gs.
+Proof.
+  intros S F. unfold strict_vn. rewrite (group_nos_groups Gs S).
+  unfold vol_numbers2. rewrite vn2_zero; [|now apply pairs_nodup|reflexivity].
+  rewrite fold_max_repeat0, combine_length, gnums_length, map_length, Nat.min_id.
+  rewrite <- (gnums_length 0 Gs). apply vn_of_gn.
+Qed.
+
+(* ---- is_full flags of the groups *)
+Definition completeb (smax : Z) (G : list rec) : bool := set_eqb (map sl G) (zrange 1 smax).
+Definition flagsG (smax : Z) (Gs : list (list rec)) : list bool :=
+  concat (map (fun G => repeat (completeb smax G) (length G)) Gs).
+
+Lemma vol_slices_app a b av bv v : length a = length av ->
+  vol_slices (a ++ b) (av ++ bv) v = vol_slices a av v ++ vol_slices b bv v.
+Proof. intros H. unfold vol_slices. now rewrite combine_app, filter_app, map_app. Qed.
+
+Lemma vol_slices_none a av v : ~ In v av -> vol_slices a av v = [].
+Proof.
+  revert av; induction a as [|x a IH]; intros [|y av] H; try reflexivity. unfold vol_slices in *. cbn.
+  destruct (Z.eqb_spec y v) as [->|N]; [exfalso; apply H; now left|]. apply IH. intros Hin. apply H. now right.
+Qed.
+
+Lemma vol_slices_all a v : vol_slices a (repeat v (length a)) v = a.
+Proof. induction a as [|x a IH]; [reflexivity|]. unfold vol_slices in *. cbn. rewrite Z.eqb_refl. cbn. now rewrite IH. Qed.
+
+Lemma map_repeat' {A B} (f : A -> B) x n : map f (repeat x n) = repeat (f x) n.
+Proof. induction n as [|n IH]; [reflexivity|]. cbn. now rewrite IH. Qed.
+
+Lemma flags_blocks smax Gs : forall g (P Pv : list Z), length P = length Pv -> (forall v, In v Pv -> v < g) ->
+  map (fun v => set_eqb (vol_slices (P ++ map sl (concat Gs)) (Pv ++ gnums g Gs) v) (zrange 1 smax)) (gnums g Gs)
+  = flagsG smax Gs.
+Proof.
+  induction Gs as [|G Gs IH]; intros g P Pv LP HP; [reflexivity|].
+  cbn [gnums concat flagsG map]. fold (flagsG smax Gs). rewrite map_app. f_equal.
+  - rewrite map_repeat'. f_equal. unfold completeb. f_equal.
+    rewrite map_app, vol_slices_app by assumption.
+    rewrite (vol_slices_none P Pv g) by (intros Hin; apply HP in Hin; lia).
+    rewrite vol_slices_app by now rewrite repeat_length, map_length.
+    rewrite (vol_slices_none _ (gnums (g + 1) Gs) g) by (intros Hin; apply gnums_ge in Hin; lia).
+    rewrite <- (map_length sl G), vol_slices_all. cbn. apply app_nil_r.
+  - rewrite <- (IH (g + 1) (P ++ map sl G) (Pv ++ repeat g (length G))).
+    + apply map_ext. intros v. now rewrite map_app, !app_assoc.
+    + now rewrite !app_length, repeat_length, map_length, LP.
+    + intros v Hv. apply in_app_or in Hv. destruct Hv as [Hv|Hv]; [apply HP in Hv; lia|apply repeat_spec in Hv; lia].
+Qed.
+
+Lemma viw_groups smax Gs : in_range (map sl (concat Gs)) smax ->
+  vol_is_full_with (map sl (concat Gs)) (gnums 0 Gs) smax = Some (flagsG smax Gs).
+Proof.
+  intros IR. destruct (viw_spec (map sl (concat Gs)) (gnums 0 Gs) smax) as [[_ [full [E _]]]|[NR _]]; [|contradiction].
+  rewrite E. f_equal. unfold vol_is_full_with in E.
+  destruct (negb (forallb (fun s => memz s (zrange 1 smax)) (map sl (concat Gs)))); [discriminate|].
+  inversion E as [E']. clear E E'.
+  rewrite <- (flags_blocks smax Gs 0 [] []) by (try reflexivity; intros v []).
+  cbn [app]. apply map_ext_in. intros v Hv.
+  apply (lookup_tab (fun v => set_eqb (vol_slices (map sl (concat Gs)) (gnums 0 Gs) v) (zrange 1 smax))).
+  now apply nodup_In.
+Qed.
+
+Lemma filter_flags_groups smax Gs :
+  map fst (filter snd (combine (concat Gs) (flagsG smax Gs))) = concat (filter (completeb smax) Gs).
+Proof.
+  induction Gs as [|G Gs IH]; [reflexivity|]. cbn [concat flagsG map filter]. fold (flagsG smax Gs).
+  rewrite combine_app by now rewrite repeat_length. rewrite filter_app, map_app, IH.
+  destruct (completeb smax G); cbn [concat]; f_equal.
+  - clear. induction G as [|x G IHG]; [reflexivity|]. cbn. now rewrite IHG.
+  - clear. induction G as [|x G IHG]; [reflexivity|]. cbn. exact IHG.
+Qed.
+
+(* ---- the second-stage sort of a list whose volume numbers already ascend: a stable partition *)
+Lemma insert_app_skip {A} (le : A -> A -> bool) x (F N : list A) :
+  (forall y, In y F -> le x y = false) -> insert le x (F ++ N) = F ++ insert le x N.
+Proof.
+  induction F as [|y F IH]; intros H; [reflexivity|]. cbn [app insert]. rewrite (H y) by now left.
+  f_equal. apply IH. intros z Hz. apply H. now right.
+Qed.
+
+Lemma insert_front {A} (le : A -> A -> bool) x (l : list A) :
+  (forall y, In y l -> le x y = true) -> insert le x l = x :: l.
+Proof. destruct l as [|y l]; intros H; [reflexivity|]. cbn. now rewrite (H y) by now left. Qed.
+
+Lemma k2_le_cases (a b : ann) : fst (snd a) <= fst (snd b) ->
+  key_le (k2 a) (k2 b) = (negb (aflag b) || aflag a) && true || (aflag a && negb (aflag b)).
+Proof.
+  destruct a as [ra [va fa]], b as [rb [vb fb0]]. cbn [fst snd]. intros H.
+  unfold k2, key2, key_le, aflag. cbn [fst snd rev app lex_le].
+  destruct fa, fb0; cbn [negb b2z andb orb];
+    repeat (match goal with |- context [?x <? ?y] => destruct (Z.ltb_spec x y); try lia end); reflexivity.
+Qed.
+
+Lemma isort_k2_partition (AL : list ann) :
+  StronglySorted Z.le (map (fun a : ann => fst (snd a)) AL) ->
+  isort (fun a b => key_le (k2 a) (k2 b)) AL = filter aflag AL ++ filter (fun a => negb (aflag a)) AL.
+Proof.
+  induction AL as [|x AL IH]; intros S; [reflexivity|].
+  cbn [map] in S. inversion S as [|? ? S' F]; subst. rewrite Forall_forall in F.
+  cbn [isort fold_right]. fold (isort (fun a b => key_le (k2 a) (k2 b)) AL). rewrite (IH S').
+  assert (Hle : forall y, In y AL -> fst (snd x) <= fst (snd y)).
+  { intros y Hy. apply F. apply (in_map (fun a : ann => fst (snd a))). exact Hy. }
+  cbn [filter]. destruct (aflag x) eqn:Ex; cbn [negb app].
+  - apply insert_front. intros y Hy. rewrite k2_le_cases.
+    + rewrite Ex. destruct (aflag y); reflexivity.
+    + apply Hle. apply in_app_or in Hy. destruct Hy as [Hy|Hy]; apply filter_In in Hy; tauto.
+  - rewrite insert_app_skip.
+    + f_equal. apply insert_front. intros y Hy. apply filter_In in Hy. destruct Hy as [Hy Ey].
+      rewrite k2_le_cases by now apply Hle. rewrite Ex. destruct (aflag y); [discriminate|reflexivity].
+    + intros y Hy. apply filter_In in Hy. destruct Hy as [Hy Ey].
+      rewrite k2_le_cases by now apply Hle. rewrite Ex, Ey. reflexivity.
+Qed.
+
+Lemma map_vn_combine {A} (L : list A) (vn : list Z) (full : list bool) :
+  length L = length vn -> length vn = length full ->
+  map (fun a : A * (Z * bool) => fst (snd a)) (combine L (combine vn full)) = vn.
+Proof.
+  revert vn full; induction L as [|x L IH]; intros [|v vn] [|b full] H1 H2; cbn in *; try lia; try reflexivity.
+  f_equal. apply IH; lia.
+Qed.
+
+Lemma firstn_app_exact' {A} (a r : list A) n : n = length a -> firstn n (a ++ r) = a.
+Proof. intros ->. apply firstn_app_exact. Qed.
+
+(* the trim length is the number of records of complete volumes (both orders) *)
+Lemma n_used_count (strict : bool) smax recs nv vn full :
+  n_vols strict smax recs = Some nv -> (1 <= nv)%nat ->
+  vols_of strict smax (base_of strict recs) = Some (vn, full) ->
+  n_used strict smax recs = Some (length (filter (fun b : bool => b) full)).
+Proof.
+  intros NV Hnv E. unfold n_used. rewrite NV. f_equal.
+  set (L := base_of strict recs) in *.
+  assert (PL : Permutation L recs).
+  { unfold L. destruct strict; cbn [base_of]; [apply stage1_perm|reflexivity]. }
+  destruct (vols_of_viw strict smax L vn full E) as [EW [Lv [Lf NDp]]].
+  rewrite (full_count_w _ vn smax full EW) by (rewrite ?map_length; assumption).
+  assert (Ps : Permutation (map sl L) (map sl recs)) by now apply Permutation_map.
+  rewrite n_vols_vols_of in NV. fold L in NV. rewrite E in NV. inversion NV as [Q']. rewrite Q'.
+  unfold n_slices. rewrite (n_distinct_perm _ _ Ps).
+  destruct (Nat.ltb_spec 1 nv); [reflexivity|]. assert (nv = 1%nat) as -> by lia. lia.
+Qed.
+
+Definition complete_group (smax : Z) (G : list rec) : Prop := map sl G = zrange 1 smax.
+
+Lemma completeb_spec smax G : slice_sorted G -> (forall r, In r G -> 1 <= sl r <= smax) ->
+  completeb smax G = true <-> complete_group smax G.
+Proof.
+  intros S R. unfold completeb, complete_group, set_eqb. rewrite andb_true_iff, !forallb_forall. split.
+  - intros [_ H2]. apply (sort_perm_unique Z.lt); try assumption; try apply zrange_sorted; try (intros; lia).
+    apply NoDup_Permutation; [now apply sorted_lt_NoDup|apply zrange_NoDup|].
+    intros s. rewrite zrange_In. split.
+    + intros Hs. apply in_map_iff in Hs. destruct Hs as [r [<- Hr]]. now apply R.
+    + intros Hs. apply memz_In. apply H2. now apply zrange_In.
+  - intros E. rewrite E. split; intros s Hs; now apply memz_In.
+Qed.
+
+(* C20_strict_label_volumes: the records kept by the strict order are EXACTLY the complete label
+   volumes, in key order, slice by slice - whatever is missing, wherever in the key order *)
+Lemma strict_label_volumes smax recs idx nv :
   keyed smax recs -> NoDup (map keys recs) ->
+  sorted_slice_indices true smax recs = Some idx -> n_vols true smax recs = Some nv -> (1 <= nv)%nat ->
   let Gs := groups (length (stage1 recs)) (stage1 recs) in
-  stage1 recs = concat Gs /\ Forall (complete_group smax) Gs /\ Forall one_label Gs.
+  select dummy idx recs = concat (filter (completeb smax) Gs) /\
+  stage1 recs = concat Gs /\ sep Gs /\ Forall slice_sorted Gs.
 Proof.
-  intros K N Gs.
+  intros K N SI NV Hnv Gs.
   assert (K' : keyed smax (stage1 recs)) by (apply (keyed_perm smax recs); [symmetry; apply stage1_perm|assumption]).
-  assert (S : StronglySorted klt (stage1 recs)).
-  { unfold klt. apply (sorted_strict rec_le keys).
-    - apply isort_sorted; unfold rec_le; intros; [apply key_le_total|eapply key_le_trans; eassumption].
-    - eapply Permutation_NoDup; [|exact N]. apply Permutation_map. symmetry. apply stage1_perm. }
-  destruct (groups_spec smax (length (stage1 recs)) (stage1 recs) K' S (le_n _)) as [C1 [C2 C3]].
-  split; [now symmetry|split; assumption].
+  destruct (groups_spec smax (length (stage1 recs)) (stage1 recs) K' (stage1_sorted recs N) (le_n _)) as [C1 [C2 C3]].
+  fold Gs in C1, C2, C3. split; [|split; [now symmetry|split; assumption]].
+  clearbody Gs.
+  unfold sorted_slice_indices in SI.
+  destruct (strict_sort_order smax recs) as [order|] eqn:EO; [|discriminate].
+  destruct (order_records true smax recs order EO) as [vn [full [E R]]]. cbn [base_of kf_of vols_of] in E, R.
+  rewrite (n_used_count true smax recs nv vn full NV Hnv E) in SI. inversion SI; subst idx. clear SI.
+  destruct (strict_vols_lengths _ _ _ _ E) as [Lv Lf].
+  (* explicit volume numbers and flags *)
+  unfold strict_vols in E. rewrite <- C1 in E, R, Lv, Lf.
+  rewrite (strict_vn_groups Gs C2 C3) in E.
+  assert (IR : in_range (map sl (concat Gs)) smax).
+  { intros s Hs. apply in_map_iff in Hs. destruct Hs as [r [<- Hr]]. apply (k_range _ _ K'). now rewrite <- C1. }
+  rewrite (viw_groups smax Gs IR) in E. inversion E; subst vn full. clear E.
+  rewrite select_firstn, R, isort_k2_partition.
+  - rewrite map_app. rewrite annot_complete by lia.
+    rewrite firstn_app_exact'.
+    + apply filter_flags_groups.
+    + rewrite <- (annot_complete (concat Gs) (gnums 0 Gs) (flagsG smax Gs)) by lia.
+      rewrite map_length. unfold annot. symmetry. apply filter3_length; lia.
+  - unfold annot. rewrite map_vn_combine by lia. apply gnums_sorted.
 Qed.
 
-(* C20_strict_labelled_volumes: the theorem about `recs` itself *)
-Lemma strict_labelled_volumes smax recs idx :
-  keyed smax recs -> NoDup (map keys recs) -> recs <> [] -> 1 <= smax ->
-  sorted_slice_indices true smax recs = Some idx ->
-  let Gs := groups (length (stage1 recs)) (stage1 recs) in
-  select dummy idx recs = concat Gs /\ Permutation (concat Gs) recs /\
-  Forall (complete_group smax) Gs /\ Forall one_label Gs.
-Proof.
-  intros K N NE Hs SI Gs. destruct (labelled_blocks smax recs K N) as [C1 [C2 C3]]. fold Gs in C1, C2, C3.
-  split; [|split; [rewrite <- C1; apply stage1_perm|split; assumption]].
-  apply (strict_complete_volumes smax recs Gs []); try assumption.
-  - now rewrite app_nil_r.
-  - intros E. rewrite E in C1. cbn in C1. apply NE.
-    apply Permutation_nil. rewrite <- C1. apply stage1_perm.
-  - constructor.
-  - intros s [].
-  - exists 1. split; [lia|intros []].
-Qed.
-
-(* C20_strict_load_by_label: end to end, for ANY record order of a recording with complete label groups *)
+(* end to end at the level of load, for any record order *)
 Lemma strict_load_by_label fone fdiv fmul permit fp expd smax nlab recs recs' idx o :
-  Permutation recs recs' -> keyed smax recs -> NoDup (map keys recs) -> recs <> [] -> 1 <= smax ->
+  Permutation recs recs' -> keyed smax recs -> NoDup (map keys recs) ->
   load fone fdiv fmul true permit fp expd smax nlab recs' = Ok (idx, o) ->
   let Gs := groups (length (stage1 recs)) (stage1 recs) in
-  Permutation (concat Gs) recs /\ Forall (complete_group smax) Gs /\ Forall one_label Gs /\
-  select dummy idx recs' = concat Gs /\
-  o_payload o = map pid (concat Gs) /\
-  o_slope o = map (slope_of fone fdiv fp) (concat Gs) /\
-  o_inter o = map (inter_of fdiv fmul fp) (concat Gs).
+  let kept := concat (filter (completeb smax) Gs) in
+  stage1 recs = concat Gs /\ sep Gs /\ Forall slice_sorted Gs /\
+  select dummy idx recs' = kept /\
+  o_payload o = map pid kept /\
+  o_slope o = map (slope_of fone fdiv fp) kept /\
+  o_inter o = map (inter_of fdiv fmul fp) kept.
 Proof.
-  intros P K N NE Hs L Gs.
+  intros P K N L Gs kept.
   assert (K' : keyed smax recs') by now apply (keyed_perm smax recs).
   assert (N' : NoDup (map keys recs')) by (eapply Permutation_NoDup; [apply Permutation_map; exact P|exact N]).
-  assert (NE' : recs' <> []) by (intros E; subst; apply NE; now apply Permutation_nil; symmetry).
   assert (ES : stage1 recs' = stage1 recs) by (symmetry; now apply stage1_perm_invariant).
-  destruct (load_ok fone fdiv fmul _ _ _ _ _ _ _ _ _ L) as [_ [SI [nv [_ ->]]]].
-  destruct (strict_labelled_volumes smax recs' idx K' N' NE' Hs SI) as [C1 [C2 [C3 C4]]].
-  rewrite ES in C1, C2, C3, C4. fold Gs in C1, C2, C3, C4.
-  split; [now rewrite C2; symmetry|]. split; [assumption|]. split; [assumption|]. split; [assumption|].
-  cbn [obs_of o_payload o_slope o_inter]. now rewrite C1.
+  destruct (load_ok fone fdiv fmul _ _ _ _ _ _ _ _ _ L) as [_ [SI [nv [NV [Hnv ->]]]]].
+  destruct (strict_label_volumes smax recs' idx nv K' N' SI NV Hnv) as [C1 [C2 [C3 C4]]].
+  rewrite ES in C1, C2, C3, C4. fold Gs in C1, C2, C3, C4. fold kept in C1.
+  repeat (split; [assumption|]). cbn [obs_of o_payload o_slope o_inter]. now rewrite C1.
+Qed.
+
+(* S-C20c repaired: a recording without any complete volume is refused *)
+Lemma no_volume_refused fone fdiv fmul (strict : bool) permit fp expd smax nlab recs :
+  n_vols strict smax recs = Some O ->
+  (exists e, load fone fdiv fmul strict permit fp expd smax nlab recs = Err e).
+Proof.
+  intros NV. unfold load. destruct (header_init permit expd smax recs) as [[]|e]; [|eauto].
+  rewrite NV. destruct (sorted_slice_indices strict smax recs); eauto.
 Qed.
